@@ -16,6 +16,18 @@
         pub(crate) ver: [u64; MAXN],
     }
 
+    /// read slot `cur` through concrete indices only (cheaper for the solver than a symbolic offset); cur must be < len
+    fn meta_at<T>(l: &VecList<T>, cur: usize) -> (bool, MetaData) {
+        let mut r = (true, MetaData { version: 0, prev: None, next: None });
+        let len = l.storage.len();
+        let mut i = 0;
+        while i < MAXN {
+            if i < len && i == cur { r = (l.storage[i].is_free, l.storage[i].metadata); }
+            i += 1;
+        }
+        r
+    }
+
     /// Representation invariant, written from the struct fields, and the abstract view it determines.
     ///  * storage has room for exactly CAP entries, L = storage.len() <= CAP
     ///  * the free stack holds exactly the slots < L flagged free, each once
@@ -46,7 +58,7 @@
             if a < f {
                 let x = l.free_stack[a];
                 if x < len {
-                    if !l.storage[x].is_free { ok = false; }
+                    if !meta_at(l, x).0 { ok = false; }
                 } else {
                     ok = false;
                 }
@@ -69,21 +81,21 @@
                     let mut k = 0;
                     while k < CAP {
                         if ok && k < s.size {
-                            if cur < len && !l.storage[cur].is_free {
-                                let e = &l.storage[cur];
-                                if e.metadata.prev != prev { ok = false; }
+                            let (cur_free, cur_meta) = meta_at(l, cur);
+                            if cur < len && !cur_free {
+                                if cur_meta.prev != prev { ok = false; }
                                 let mut j = 0;
                                 while j < k {
                                     if v.slot[j] == cur { ok = false; }
                                     j += 1;
                                 }
                                 v.slot[k] = cur;
-                                v.ver[k] = e.metadata.version;
+                                v.ver[k] = cur_meta.version;
                                 prev = Some(cur);
                                 if k + 1 == s.size {
-                                    if e.metadata.next.is_some() || cur != s.tail { ok = false; }
+                                    if cur_meta.next.is_some() || cur != s.tail { ok = false; }
                                 } else {
-                                    match e.metadata.next {
+                                    match cur_meta.next {
                                         Some(nx) => cur = nx,
                                         None => ok = false,
                                     }
@@ -129,6 +141,36 @@
         l
     }
 
+    /// one CONCRETE well-formed layout per (L, F): slots 0..F-1 are free (free stack holds F-1, .., 0), the live elements are
+    /// slots L-1 down to F in list order (oldest = slot L-1), so list order differs from slot order. Versions stay symbolic.
+    /// Used by the EventBuffer harnesses whose control flow must not depend on symbolic links (clear_written); that the list
+    /// operations behave the same for every layout is what the symbolic-layout contracts in this file prove.
+    pub(crate) fn build_canonical<T, const CAP: usize, const L: usize, const F: usize>(mut mk: impl FnMut() -> T) -> VecList<T> {
+        let mut l: VecList<T> = VecList::new(CAP);
+        let mut i = 0;
+        while i < L {
+            let live = i >= F;
+            l.storage.push(Entry {
+                data: mk(),
+                is_free: !live,
+                metadata: MetaData {
+                    version: kani::any(),
+                    prev: if live && i + 1 < L { Some(i + 1) } else { None },
+                    next: if live && i > F { Some(i - 1) } else { None },
+                },
+            });
+            i += 1;
+        }
+        let mut j = F;
+        while j > 0 {
+            j -= 1;
+            l.free_stack.push_back(j);
+        }
+        l.version = kani::any();
+        l.state = if L > F { Some(State { head: L - 1, tail: F, size: L - F }) } else { None };
+        l
+    }
+
     pub(crate) fn data_at<T>(l: &VecList<T>, slot: usize) -> &T {
         &l.storage[slot].data
     }
@@ -137,11 +179,21 @@
         l.version
     }
 
+    pub(crate) fn storage_len<T>(l: &VecList<T>) -> usize {
+        l.storage.len()
+    }
+
     fn datas(l: &VecList<u8>, v: &View) -> [u8; MAXN] {
         let mut d = [0u8; MAXN];
         let mut i = 0;
         while i < MAXN {
-            if i < v.n { d[i] = l.storage[v.slot[i]].data; }
+            if i < v.n {
+                let mut j = 0;
+                while j < MAXN {
+                    if j < l.storage.len() && j == v.slot[i] { d[i] = l.storage[j].data; }
+                    j += 1;
+                }
+            }
             i += 1;
         }
         d
@@ -171,6 +223,23 @@
             i += 1;
         }
         ok
+    }
+
+    /// an arbitrary predicate on u8, as far as at most MAXN distinct arguments can tell: symbolic (key -> answer) pairs, first
+    /// matching key wins, symbolic default. Every predicate restricted to the <= MAXN element values is one of these.
+    #[derive(Copy, Clone)]
+    struct Pred { keys: [u8; MAXN], vals: [bool; MAXN], other: bool }
+    impl Pred {
+        fn any() -> Self { Pred { keys: kani::any(), vals: kani::any(), other: kani::any() } }
+        fn eval(&self, x: u8) -> bool {
+            let mut r = self.other;
+            let mut i = MAXN;
+            while i > 0 {
+                i -= 1;
+                if self.keys[i] == x { r = self.vals[i]; }
+            }
+            r
+        }
     }
 
     fn any_wf<const CAP: usize, const L: usize, const F: usize>() -> (VecList<u8>, View, [u8; MAXN]) {
@@ -240,15 +309,15 @@
     // ---- remove_first(pred): removes the oldest element satisfying pred and returns its data
     fn remove_first_contract<const CAP: usize, const L: usize, const F: usize>() {
         let (mut l, pre, pd) = any_wf::<CAP, L, F>();
-        let table: [bool; 256] = kani::any();
+        let table = Pred::any();
         let mut m = [false; MAXN];
         let mut i = 0;
         while i < MAXN {
-            if i < pre.n { m[i] = table[pd[i] as usize]; }
+            if i < pre.n { m[i] = table.eval(pd[i]); }
             i += 1;
         }
         let k = spec::ev_first(&m, pre.n);
-        let r: Option<u8> = l.remove_first(|x| table[*x as usize]).copied();
+        let r: Option<u8> = l.remove_first(|x| table.eval(*x)).copied();
         let (ok, post) = wf_view::<u8, CAP>(&l);
         assert!(ok, "remove_first: representation invariant restored");
         let qd = datas(&l, &post);
@@ -264,16 +333,19 @@
         kani::cover!(k == pre.n);
     }
 
-    // ---- remove_all(pred): removes exactly the matching elements, pred is asked once per element, oldest first
-    fn remove_all_contract<const CAP: usize, const L: usize, const F: usize>() {
+    // ---- remove_all(pred): removes exactly the elements for which pred answered true; pred is asked once per element, oldest first.
+    // The answers are a concrete bit pattern per instance (MASK bit k = answer to the k-th question): with symbolic answers the
+    // free stack's LENGTH becomes symbolic after the first removal and VecDeque::grow makes CBMC run out of time (measured).
+    // All 2^size patterns are enumerated, so every predicate behaviour on a list of that size is covered.
+    fn remove_all_contract<const CAP: usize, const L: usize, const F: usize, const MASK: usize>() {
         let (mut l, pre, pd) = any_wf::<CAP, L, F>();
-        let table: [bool; 256] = kani::any();
         let mut asked = [0u8; MAXN];
         let mut n_asked: usize = 0;
         let r = l.remove_all(|x| {
             if n_asked < MAXN { asked[n_asked] = *x; }
+            let answer = n_asked < MAXN && (MASK >> n_asked) & 1 == 1;
             n_asked += 1;
-            table[*x as usize]
+            answer
         });
         let (ok, post) = wf_view::<u8, CAP>(&l);
         assert!(ok, "remove_all: representation invariant restored");
@@ -284,7 +356,7 @@
         while i < MAXN {
             if i < pre.n {
                 assert!(asked[i] == pd[i], "remove_all: elements visited oldest first");
-                if !table[pd[i] as usize] {
+                if (MASK >> i) & 1 == 0 {
                     assert!(kept < post.n && same_elem(&pre, &pd, i, &post, &qd, kept), "remove_all: survivors keep order, handle, data");
                     kept += 1;
                 }
@@ -293,9 +365,7 @@
         }
         assert!(post.n == kept, "remove_all: nothing but the survivors remains");
         assert!(r == pre.n - kept, "remove_all: returns the number removed");
-        kani::cover!(if L - F > 0 { r == pre.n } else { r == 0 });
-        kani::cover!(if L - F > 1 { r == 1 && kept == pre.n - 1 && !table[pd[0] as usize] } else { true });
-        kani::cover!(r == 0);
+        kani::cover!(r + post.n == L - F);
     }
 
     // ---- iteration / find_first: visits the sequence oldest first with the right handles; nothing changes
@@ -313,15 +383,15 @@
             i += 1;
         }
         assert!(it.next().is_none(), "iter: ends after the last element");
-        let table: [bool; 256] = kani::any();
+        let table = Pred::any();
         let mut m = [false; MAXN];
         let mut j = 0;
         while j < MAXN {
-            if j < pre.n { m[j] = table[pd[j] as usize]; }
+            if j < pre.n { m[j] = table.eval(pd[j]); }
             j += 1;
         }
         let k = spec::ev_first(&m, pre.n);
-        let f = l.find_first(&|x: &u8| table[*x as usize]);
+        let f = l.find_first(&|x: &u8| table.eval(*x));
         match f {
             Some(h) => assert!(k < pre.n && h.value == pre.slot[k] && h.version == pre.ver[k], "find_first: handle of the oldest match"),
             None => assert!(k == pre.n, "find_first: None iff nothing matches"),
@@ -344,324 +414,346 @@
         kani::cover!(ok);
     }
 
+    // minisat: measured 2-3x faster than the default CaDiCaL on these instances (kissat 2x slower)
     macro_rules! list_harness {
         ($name:ident, $contract:ident, $cap:expr, $l:expr, $f:expr) => {
             #[kani::proof]
             #[kani::unwind(7)]
+            #[kani::solver(minisat)]
             fn $name() {
                 $contract::<$cap, $l, $f>();
+            }
+        };
+        ($name:ident, $contract:ident, $cap:expr, $l:expr, $f:expr, $mask:expr) => {
+            #[kani::proof]
+            #[kani::unwind(7)]
+            #[kani::solver(minisat)]
+            fn $name() {
+                $contract::<$cap, $l, $f, $mask>();
             }
         };
     }
 
 //@@INSTANCES@@
-    // @harness ids=C03,C01 tier=quick kind=bounded bound="capacity=3 (storage length 0, free-stack length 0; all contents, links, versions symbolic under the invariant)" units=outstation::database::details::event::list::VecList::add timeout=200 note="add appends at the tail under a fresh handle, earlier elements keep order/handle/data; a full list refuses and is unchanged; invariant restored"
+    // @harness ids=C03,C01 tier=quick kind=bounded bound="capacity=3 (storage length 0, free-stack length 0; all contents, links, versions symbolic under the invariant)" units=outstation::database::details::event::list::VecList::add timeout=250 note="add appends at the tail under a fresh handle, earlier elements keep order/handle/data; a full list refuses and is unchanged; invariant restored"
     list_harness!(vk_c03_list_add_c3_l0_f0, add_contract, 3, 0, 0);
-    // @harness ids=C03,C01 tier=quick kind=bounded bound="capacity=3 (storage length 0, free-stack length 0; all contents, links, versions symbolic under the invariant)" units=outstation::database::details::event::list::VecList::remove_at timeout=200 note="for every handle value: removes exactly the addressed element iff the slot is live and the version matches, order of the others unchanged, else nothing changes; invariant restored"
+    // @harness ids=C03,C01 tier=thorough kind=bounded bound="capacity=3 (storage length 0, free-stack length 0; all contents, links, versions symbolic under the invariant)" units=outstation::database::details::event::list::VecList::remove_at timeout=250 note="for every handle value: removes exactly the addressed element iff the slot is live and the version matches, order of the others unchanged, else nothing changes; invariant restored"
     list_harness!(vk_c03_list_remove_at_c3_l0_f0, remove_at_contract, 3, 0, 0);
-    // @harness ids=C03,C01 tier=quick kind=bounded bound="capacity=3 (storage length 0, free-stack length 0; all contents, links, versions symbolic under the invariant)" units=outstation::database::details::event::list::VecList::remove_first,outstation::database::details::event::list::VecList::find_first timeout=200 note="for every predicate (symbolic truth table): removes exactly the oldest matching element and returns its data, None and unchanged iff none matches; invariant restored"
+    // @harness ids=C03,C01 tier=thorough kind=bounded bound="capacity=3 (storage length 0, free-stack length 0; all contents, links, versions symbolic under the invariant)" units=outstation::database::details::event::list::VecList::remove_first,outstation::database::details::event::list::VecList::find_first timeout=250 note="for every predicate (symbolic truth table): removes exactly the oldest matching element and returns its data, None and unchanged iff none matches; invariant restored"
     list_harness!(vk_c03_list_remove_first_c3_l0_f0, remove_first_contract, 3, 0, 0);
-    // @harness ids=C03,C01 tier=quick kind=bounded bound="capacity=3 (storage length 0, free-stack length 0; all contents, links, versions symbolic under the invariant)" units=outstation::database::details::event::list::VecList::remove_all timeout=200 note="for every predicate: asks it once per element oldest first, removes exactly the matching ones, survivors keep order/handle/data, returns the number removed; invariant restored"
-    list_harness!(vk_c03_list_remove_all_c3_l0_f0, remove_all_contract, 3, 0, 0);
-    // @harness ids=C03,C01 tier=quick kind=bounded bound="capacity=3 (storage length 0, free-stack length 0; all contents, links, versions symbolic under the invariant)" units=outstation::database::details::event::list::VecList::iter,outstation::database::details::event::list::ListIterator::next,outstation::database::details::event::list::VecList::find_first,outstation::database::details::event::list::VecList::len,outstation::database::details::event::list::VecList::is_full timeout=200 note="iteration yields exactly the live elements oldest first with their handles; find_first returns the oldest match; nothing changes"
+    // @harness ids=C03,C01 tier=thorough kind=bounded bound="capacity=3 (storage length 0, free-stack length 0; all contents, links, versions symbolic under the invariant)" units=outstation::database::details::event::list::VecList::iter,outstation::database::details::event::list::ListIterator::next,outstation::database::details::event::list::VecList::find_first,outstation::database::details::event::list::VecList::len,outstation::database::details::event::list::VecList::is_full timeout=250 note="iteration yields exactly the live elements oldest first with their handles; find_first returns the oldest match; nothing changes"
     list_harness!(vk_c03_list_iter_c3_l0_f0, iter_contract, 3, 0, 0);
-    // @harness ids=C03,C01 tier=quick kind=bounded bound="capacity=3 (storage length 1, free-stack length 0; all contents, links, versions symbolic under the invariant)" units=outstation::database::details::event::list::VecList::add timeout=200 note="add appends at the tail under a fresh handle, earlier elements keep order/handle/data; a full list refuses and is unchanged; invariant restored"
+    // @harness ids=C03,C01 tier=thorough kind=bounded bound="capacity=3 (storage length 0, free-stack length 0, predicate answers = bits of 0; all contents, links, versions symbolic under the invariant)" units=outstation::database::details::event::list::VecList::remove_all timeout=250 note="the predicate is asked once per element oldest first; exactly the elements it accepts are removed, survivors keep order/handle/data; returns the number removed; invariant restored (all 2^size answer patterns enumerated)"
+    list_harness!(vk_c03_list_remove_all_c3_l0_f0_m0, remove_all_contract, 3, 0, 0, 0);
+    // @harness ids=C03,C01 tier=quick kind=bounded bound="capacity=3 (storage length 1, free-stack length 0; all contents, links, versions symbolic under the invariant)" units=outstation::database::details::event::list::VecList::add timeout=250 note="add appends at the tail under a fresh handle, earlier elements keep order/handle/data; a full list refuses and is unchanged; invariant restored"
     list_harness!(vk_c03_list_add_c3_l1_f0, add_contract, 3, 1, 0);
-    // @harness ids=C03,C01 tier=quick kind=bounded bound="capacity=3 (storage length 1, free-stack length 0; all contents, links, versions symbolic under the invariant)" units=outstation::database::details::event::list::VecList::remove_at timeout=200 note="for every handle value: removes exactly the addressed element iff the slot is live and the version matches, order of the others unchanged, else nothing changes; invariant restored"
+    // @harness ids=C03,C01 tier=thorough kind=bounded bound="capacity=3 (storage length 1, free-stack length 0; all contents, links, versions symbolic under the invariant)" units=outstation::database::details::event::list::VecList::remove_at timeout=250 note="for every handle value: removes exactly the addressed element iff the slot is live and the version matches, order of the others unchanged, else nothing changes; invariant restored"
     list_harness!(vk_c03_list_remove_at_c3_l1_f0, remove_at_contract, 3, 1, 0);
-    // @harness ids=C03,C01 tier=quick kind=bounded bound="capacity=3 (storage length 1, free-stack length 0; all contents, links, versions symbolic under the invariant)" units=outstation::database::details::event::list::VecList::remove_first,outstation::database::details::event::list::VecList::find_first timeout=200 note="for every predicate (symbolic truth table): removes exactly the oldest matching element and returns its data, None and unchanged iff none matches; invariant restored"
+    // @harness ids=C03,C01 tier=thorough kind=bounded bound="capacity=3 (storage length 1, free-stack length 0; all contents, links, versions symbolic under the invariant)" units=outstation::database::details::event::list::VecList::remove_first,outstation::database::details::event::list::VecList::find_first timeout=250 note="for every predicate (symbolic truth table): removes exactly the oldest matching element and returns its data, None and unchanged iff none matches; invariant restored"
     list_harness!(vk_c03_list_remove_first_c3_l1_f0, remove_first_contract, 3, 1, 0);
-    // @harness ids=C03,C01 tier=quick kind=bounded bound="capacity=3 (storage length 1, free-stack length 0; all contents, links, versions symbolic under the invariant)" units=outstation::database::details::event::list::VecList::remove_all timeout=200 note="for every predicate: asks it once per element oldest first, removes exactly the matching ones, survivors keep order/handle/data, returns the number removed; invariant restored"
-    list_harness!(vk_c03_list_remove_all_c3_l1_f0, remove_all_contract, 3, 1, 0);
-    // @harness ids=C03,C01 tier=quick kind=bounded bound="capacity=3 (storage length 1, free-stack length 0; all contents, links, versions symbolic under the invariant)" units=outstation::database::details::event::list::VecList::iter,outstation::database::details::event::list::ListIterator::next,outstation::database::details::event::list::VecList::find_first,outstation::database::details::event::list::VecList::len,outstation::database::details::event::list::VecList::is_full timeout=200 note="iteration yields exactly the live elements oldest first with their handles; find_first returns the oldest match; nothing changes"
+    // @harness ids=C03,C01 tier=thorough kind=bounded bound="capacity=3 (storage length 1, free-stack length 0; all contents, links, versions symbolic under the invariant)" units=outstation::database::details::event::list::VecList::iter,outstation::database::details::event::list::ListIterator::next,outstation::database::details::event::list::VecList::find_first,outstation::database::details::event::list::VecList::len,outstation::database::details::event::list::VecList::is_full timeout=250 note="iteration yields exactly the live elements oldest first with their handles; find_first returns the oldest match; nothing changes"
     list_harness!(vk_c03_list_iter_c3_l1_f0, iter_contract, 3, 1, 0);
-    // @harness ids=C03,C01 tier=quick kind=bounded bound="capacity=3 (storage length 1, free-stack length 1; all contents, links, versions symbolic under the invariant)" units=outstation::database::details::event::list::VecList::add timeout=200 note="add appends at the tail under a fresh handle, earlier elements keep order/handle/data; a full list refuses and is unchanged; invariant restored"
+    // @harness ids=C03,C01 tier=thorough kind=bounded bound="capacity=3 (storage length 1, free-stack length 0, predicate answers = bits of 0; all contents, links, versions symbolic under the invariant)" units=outstation::database::details::event::list::VecList::remove_all timeout=250 note="the predicate is asked once per element oldest first; exactly the elements it accepts are removed, survivors keep order/handle/data; returns the number removed; invariant restored (all 2^size answer patterns enumerated)"
+    list_harness!(vk_c03_list_remove_all_c3_l1_f0_m0, remove_all_contract, 3, 1, 0, 0);
+    // @harness ids=C03,C01 tier=thorough kind=bounded bound="capacity=3 (storage length 1, free-stack length 0, predicate answers = bits of 1; all contents, links, versions symbolic under the invariant)" units=outstation::database::details::event::list::VecList::remove_all timeout=250 note="the predicate is asked once per element oldest first; exactly the elements it accepts are removed, survivors keep order/handle/data; returns the number removed; invariant restored (all 2^size answer patterns enumerated)"
+    list_harness!(vk_c03_list_remove_all_c3_l1_f0_m1, remove_all_contract, 3, 1, 0, 1);
+    // @harness ids=C03,C01 tier=quick kind=bounded bound="capacity=3 (storage length 1, free-stack length 1; all contents, links, versions symbolic under the invariant)" units=outstation::database::details::event::list::VecList::add timeout=250 note="add appends at the tail under a fresh handle, earlier elements keep order/handle/data; a full list refuses and is unchanged; invariant restored"
     list_harness!(vk_c03_list_add_c3_l1_f1, add_contract, 3, 1, 1);
-    // @harness ids=C03,C01 tier=quick kind=bounded bound="capacity=3 (storage length 1, free-stack length 1; all contents, links, versions symbolic under the invariant)" units=outstation::database::details::event::list::VecList::remove_at timeout=200 note="for every handle value: removes exactly the addressed element iff the slot is live and the version matches, order of the others unchanged, else nothing changes; invariant restored"
+    // @harness ids=C03,C01 tier=thorough kind=bounded bound="capacity=3 (storage length 1, free-stack length 1; all contents, links, versions symbolic under the invariant)" units=outstation::database::details::event::list::VecList::remove_at timeout=250 note="for every handle value: removes exactly the addressed element iff the slot is live and the version matches, order of the others unchanged, else nothing changes; invariant restored"
     list_harness!(vk_c03_list_remove_at_c3_l1_f1, remove_at_contract, 3, 1, 1);
-    // @harness ids=C03,C01 tier=quick kind=bounded bound="capacity=3 (storage length 1, free-stack length 1; all contents, links, versions symbolic under the invariant)" units=outstation::database::details::event::list::VecList::remove_first,outstation::database::details::event::list::VecList::find_first timeout=200 note="for every predicate (symbolic truth table): removes exactly the oldest matching element and returns its data, None and unchanged iff none matches; invariant restored"
+    // @harness ids=C03,C01 tier=thorough kind=bounded bound="capacity=3 (storage length 1, free-stack length 1; all contents, links, versions symbolic under the invariant)" units=outstation::database::details::event::list::VecList::remove_first,outstation::database::details::event::list::VecList::find_first timeout=250 note="for every predicate (symbolic truth table): removes exactly the oldest matching element and returns its data, None and unchanged iff none matches; invariant restored"
     list_harness!(vk_c03_list_remove_first_c3_l1_f1, remove_first_contract, 3, 1, 1);
-    // @harness ids=C03,C01 tier=quick kind=bounded bound="capacity=3 (storage length 1, free-stack length 1; all contents, links, versions symbolic under the invariant)" units=outstation::database::details::event::list::VecList::remove_all timeout=200 note="for every predicate: asks it once per element oldest first, removes exactly the matching ones, survivors keep order/handle/data, returns the number removed; invariant restored"
-    list_harness!(vk_c03_list_remove_all_c3_l1_f1, remove_all_contract, 3, 1, 1);
-    // @harness ids=C03,C01 tier=quick kind=bounded bound="capacity=3 (storage length 1, free-stack length 1; all contents, links, versions symbolic under the invariant)" units=outstation::database::details::event::list::VecList::iter,outstation::database::details::event::list::ListIterator::next,outstation::database::details::event::list::VecList::find_first,outstation::database::details::event::list::VecList::len,outstation::database::details::event::list::VecList::is_full timeout=200 note="iteration yields exactly the live elements oldest first with their handles; find_first returns the oldest match; nothing changes"
+    // @harness ids=C03,C01 tier=thorough kind=bounded bound="capacity=3 (storage length 1, free-stack length 1; all contents, links, versions symbolic under the invariant)" units=outstation::database::details::event::list::VecList::iter,outstation::database::details::event::list::ListIterator::next,outstation::database::details::event::list::VecList::find_first,outstation::database::details::event::list::VecList::len,outstation::database::details::event::list::VecList::is_full timeout=250 note="iteration yields exactly the live elements oldest first with their handles; find_first returns the oldest match; nothing changes"
     list_harness!(vk_c03_list_iter_c3_l1_f1, iter_contract, 3, 1, 1);
-    // @harness ids=C03,C01 tier=quick kind=bounded bound="capacity=3 (storage length 2, free-stack length 0; all contents, links, versions symbolic under the invariant)" units=outstation::database::details::event::list::VecList::add timeout=200 note="add appends at the tail under a fresh handle, earlier elements keep order/handle/data; a full list refuses and is unchanged; invariant restored"
+    // @harness ids=C03,C01 tier=thorough kind=bounded bound="capacity=3 (storage length 1, free-stack length 1, predicate answers = bits of 0; all contents, links, versions symbolic under the invariant)" units=outstation::database::details::event::list::VecList::remove_all timeout=250 note="the predicate is asked once per element oldest first; exactly the elements it accepts are removed, survivors keep order/handle/data; returns the number removed; invariant restored (all 2^size answer patterns enumerated)"
+    list_harness!(vk_c03_list_remove_all_c3_l1_f1_m0, remove_all_contract, 3, 1, 1, 0);
+    // @harness ids=C03,C01 tier=quick kind=bounded bound="capacity=3 (storage length 2, free-stack length 0; all contents, links, versions symbolic under the invariant)" units=outstation::database::details::event::list::VecList::add timeout=250 note="add appends at the tail under a fresh handle, earlier elements keep order/handle/data; a full list refuses and is unchanged; invariant restored"
     list_harness!(vk_c03_list_add_c3_l2_f0, add_contract, 3, 2, 0);
-    // @harness ids=C03,C01 tier=quick kind=bounded bound="capacity=3 (storage length 2, free-stack length 0; all contents, links, versions symbolic under the invariant)" units=outstation::database::details::event::list::VecList::remove_at timeout=200 note="for every handle value: removes exactly the addressed element iff the slot is live and the version matches, order of the others unchanged, else nothing changes; invariant restored"
+    // @harness ids=C03,C01 tier=thorough kind=bounded bound="capacity=3 (storage length 2, free-stack length 0; all contents, links, versions symbolic under the invariant)" units=outstation::database::details::event::list::VecList::remove_at timeout=250 note="for every handle value: removes exactly the addressed element iff the slot is live and the version matches, order of the others unchanged, else nothing changes; invariant restored"
     list_harness!(vk_c03_list_remove_at_c3_l2_f0, remove_at_contract, 3, 2, 0);
-    // @harness ids=C03,C01 tier=quick kind=bounded bound="capacity=3 (storage length 2, free-stack length 0; all contents, links, versions symbolic under the invariant)" units=outstation::database::details::event::list::VecList::remove_first,outstation::database::details::event::list::VecList::find_first timeout=200 note="for every predicate (symbolic truth table): removes exactly the oldest matching element and returns its data, None and unchanged iff none matches; invariant restored"
+    // @harness ids=C03,C01 tier=thorough kind=bounded bound="capacity=3 (storage length 2, free-stack length 0; all contents, links, versions symbolic under the invariant)" units=outstation::database::details::event::list::VecList::remove_first,outstation::database::details::event::list::VecList::find_first timeout=250 note="for every predicate (symbolic truth table): removes exactly the oldest matching element and returns its data, None and unchanged iff none matches; invariant restored"
     list_harness!(vk_c03_list_remove_first_c3_l2_f0, remove_first_contract, 3, 2, 0);
-    // @harness ids=C03,C01 tier=quick kind=bounded bound="capacity=3 (storage length 2, free-stack length 0; all contents, links, versions symbolic under the invariant)" units=outstation::database::details::event::list::VecList::remove_all timeout=200 note="for every predicate: asks it once per element oldest first, removes exactly the matching ones, survivors keep order/handle/data, returns the number removed; invariant restored"
-    list_harness!(vk_c03_list_remove_all_c3_l2_f0, remove_all_contract, 3, 2, 0);
-    // @harness ids=C03,C01 tier=quick kind=bounded bound="capacity=3 (storage length 2, free-stack length 0; all contents, links, versions symbolic under the invariant)" units=outstation::database::details::event::list::VecList::iter,outstation::database::details::event::list::ListIterator::next,outstation::database::details::event::list::VecList::find_first,outstation::database::details::event::list::VecList::len,outstation::database::details::event::list::VecList::is_full timeout=200 note="iteration yields exactly the live elements oldest first with their handles; find_first returns the oldest match; nothing changes"
+    // @harness ids=C03,C01 tier=thorough kind=bounded bound="capacity=3 (storage length 2, free-stack length 0; all contents, links, versions symbolic under the invariant)" units=outstation::database::details::event::list::VecList::iter,outstation::database::details::event::list::ListIterator::next,outstation::database::details::event::list::VecList::find_first,outstation::database::details::event::list::VecList::len,outstation::database::details::event::list::VecList::is_full timeout=250 note="iteration yields exactly the live elements oldest first with their handles; find_first returns the oldest match; nothing changes"
     list_harness!(vk_c03_list_iter_c3_l2_f0, iter_contract, 3, 2, 0);
-    // @harness ids=C03,C01 tier=quick kind=bounded bound="capacity=3 (storage length 2, free-stack length 1; all contents, links, versions symbolic under the invariant)" units=outstation::database::details::event::list::VecList::add timeout=200 note="add appends at the tail under a fresh handle, earlier elements keep order/handle/data; a full list refuses and is unchanged; invariant restored"
+    // @harness ids=C03,C01 tier=thorough kind=bounded bound="capacity=3 (storage length 2, free-stack length 0, predicate answers = bits of 0; all contents, links, versions symbolic under the invariant)" units=outstation::database::details::event::list::VecList::remove_all timeout=250 note="the predicate is asked once per element oldest first; exactly the elements it accepts are removed, survivors keep order/handle/data; returns the number removed; invariant restored (all 2^size answer patterns enumerated)"
+    list_harness!(vk_c03_list_remove_all_c3_l2_f0_m0, remove_all_contract, 3, 2, 0, 0);
+    // @harness ids=C03,C01 tier=thorough kind=bounded bound="capacity=3 (storage length 2, free-stack length 0, predicate answers = bits of 1; all contents, links, versions symbolic under the invariant)" units=outstation::database::details::event::list::VecList::remove_all timeout=250 note="the predicate is asked once per element oldest first; exactly the elements it accepts are removed, survivors keep order/handle/data; returns the number removed; invariant restored (all 2^size answer patterns enumerated)"
+    list_harness!(vk_c03_list_remove_all_c3_l2_f0_m1, remove_all_contract, 3, 2, 0, 1);
+    // @harness ids=C03,C01 tier=thorough kind=bounded bound="capacity=3 (storage length 2, free-stack length 0, predicate answers = bits of 2; all contents, links, versions symbolic under the invariant)" units=outstation::database::details::event::list::VecList::remove_all timeout=250 note="the predicate is asked once per element oldest first; exactly the elements it accepts are removed, survivors keep order/handle/data; returns the number removed; invariant restored (all 2^size answer patterns enumerated)"
+    list_harness!(vk_c03_list_remove_all_c3_l2_f0_m2, remove_all_contract, 3, 2, 0, 2);
+    // @harness ids=C03,C01 tier=thorough kind=bounded bound="capacity=3 (storage length 2, free-stack length 0, predicate answers = bits of 3; all contents, links, versions symbolic under the invariant)" units=outstation::database::details::event::list::VecList::remove_all timeout=250 note="the predicate is asked once per element oldest first; exactly the elements it accepts are removed, survivors keep order/handle/data; returns the number removed; invariant restored (all 2^size answer patterns enumerated)"
+    list_harness!(vk_c03_list_remove_all_c3_l2_f0_m3, remove_all_contract, 3, 2, 0, 3);
+    // @harness ids=C03,C01 tier=quick kind=bounded bound="capacity=3 (storage length 2, free-stack length 1; all contents, links, versions symbolic under the invariant)" units=outstation::database::details::event::list::VecList::add timeout=250 note="add appends at the tail under a fresh handle, earlier elements keep order/handle/data; a full list refuses and is unchanged; invariant restored"
     list_harness!(vk_c03_list_add_c3_l2_f1, add_contract, 3, 2, 1);
-    // @harness ids=C03,C01 tier=quick kind=bounded bound="capacity=3 (storage length 2, free-stack length 1; all contents, links, versions symbolic under the invariant)" units=outstation::database::details::event::list::VecList::remove_at timeout=200 note="for every handle value: removes exactly the addressed element iff the slot is live and the version matches, order of the others unchanged, else nothing changes; invariant restored"
+    // @harness ids=C03,C01 tier=thorough kind=bounded bound="capacity=3 (storage length 2, free-stack length 1; all contents, links, versions symbolic under the invariant)" units=outstation::database::details::event::list::VecList::remove_at timeout=250 note="for every handle value: removes exactly the addressed element iff the slot is live and the version matches, order of the others unchanged, else nothing changes; invariant restored"
     list_harness!(vk_c03_list_remove_at_c3_l2_f1, remove_at_contract, 3, 2, 1);
-    // @harness ids=C03,C01 tier=quick kind=bounded bound="capacity=3 (storage length 2, free-stack length 1; all contents, links, versions symbolic under the invariant)" units=outstation::database::details::event::list::VecList::remove_first,outstation::database::details::event::list::VecList::find_first timeout=200 note="for every predicate (symbolic truth table): removes exactly the oldest matching element and returns its data, None and unchanged iff none matches; invariant restored"
+    // @harness ids=C03,C01 tier=thorough kind=bounded bound="capacity=3 (storage length 2, free-stack length 1; all contents, links, versions symbolic under the invariant)" units=outstation::database::details::event::list::VecList::remove_first,outstation::database::details::event::list::VecList::find_first timeout=250 note="for every predicate (symbolic truth table): removes exactly the oldest matching element and returns its data, None and unchanged iff none matches; invariant restored"
     list_harness!(vk_c03_list_remove_first_c3_l2_f1, remove_first_contract, 3, 2, 1);
-    // @harness ids=C03,C01 tier=quick kind=bounded bound="capacity=3 (storage length 2, free-stack length 1; all contents, links, versions symbolic under the invariant)" units=outstation::database::details::event::list::VecList::remove_all timeout=200 note="for every predicate: asks it once per element oldest first, removes exactly the matching ones, survivors keep order/handle/data, returns the number removed; invariant restored"
-    list_harness!(vk_c03_list_remove_all_c3_l2_f1, remove_all_contract, 3, 2, 1);
-    // @harness ids=C03,C01 tier=quick kind=bounded bound="capacity=3 (storage length 2, free-stack length 1; all contents, links, versions symbolic under the invariant)" units=outstation::database::details::event::list::VecList::iter,outstation::database::details::event::list::ListIterator::next,outstation::database::details::event::list::VecList::find_first,outstation::database::details::event::list::VecList::len,outstation::database::details::event::list::VecList::is_full timeout=200 note="iteration yields exactly the live elements oldest first with their handles; find_first returns the oldest match; nothing changes"
+    // @harness ids=C03,C01 tier=thorough kind=bounded bound="capacity=3 (storage length 2, free-stack length 1; all contents, links, versions symbolic under the invariant)" units=outstation::database::details::event::list::VecList::iter,outstation::database::details::event::list::ListIterator::next,outstation::database::details::event::list::VecList::find_first,outstation::database::details::event::list::VecList::len,outstation::database::details::event::list::VecList::is_full timeout=250 note="iteration yields exactly the live elements oldest first with their handles; find_first returns the oldest match; nothing changes"
     list_harness!(vk_c03_list_iter_c3_l2_f1, iter_contract, 3, 2, 1);
-    // @harness ids=C03,C01 tier=quick kind=bounded bound="capacity=3 (storage length 2, free-stack length 2; all contents, links, versions symbolic under the invariant)" units=outstation::database::details::event::list::VecList::add timeout=200 note="add appends at the tail under a fresh handle, earlier elements keep order/handle/data; a full list refuses and is unchanged; invariant restored"
+    // @harness ids=C03,C01 tier=thorough kind=bounded bound="capacity=3 (storage length 2, free-stack length 1, predicate answers = bits of 0; all contents, links, versions symbolic under the invariant)" units=outstation::database::details::event::list::VecList::remove_all timeout=250 note="the predicate is asked once per element oldest first; exactly the elements it accepts are removed, survivors keep order/handle/data; returns the number removed; invariant restored (all 2^size answer patterns enumerated)"
+    list_harness!(vk_c03_list_remove_all_c3_l2_f1_m0, remove_all_contract, 3, 2, 1, 0);
+    // @harness ids=C03,C01 tier=thorough kind=bounded bound="capacity=3 (storage length 2, free-stack length 1, predicate answers = bits of 1; all contents, links, versions symbolic under the invariant)" units=outstation::database::details::event::list::VecList::remove_all timeout=250 note="the predicate is asked once per element oldest first; exactly the elements it accepts are removed, survivors keep order/handle/data; returns the number removed; invariant restored (all 2^size answer patterns enumerated)"
+    list_harness!(vk_c03_list_remove_all_c3_l2_f1_m1, remove_all_contract, 3, 2, 1, 1);
+    // @harness ids=C03,C01 tier=quick kind=bounded bound="capacity=3 (storage length 2, free-stack length 2; all contents, links, versions symbolic under the invariant)" units=outstation::database::details::event::list::VecList::add timeout=250 note="add appends at the tail under a fresh handle, earlier elements keep order/handle/data; a full list refuses and is unchanged; invariant restored"
     list_harness!(vk_c03_list_add_c3_l2_f2, add_contract, 3, 2, 2);
-    // @harness ids=C03,C01 tier=quick kind=bounded bound="capacity=3 (storage length 2, free-stack length 2; all contents, links, versions symbolic under the invariant)" units=outstation::database::details::event::list::VecList::remove_at timeout=200 note="for every handle value: removes exactly the addressed element iff the slot is live and the version matches, order of the others unchanged, else nothing changes; invariant restored"
+    // @harness ids=C03,C01 tier=thorough kind=bounded bound="capacity=3 (storage length 2, free-stack length 2; all contents, links, versions symbolic under the invariant)" units=outstation::database::details::event::list::VecList::remove_at timeout=250 note="for every handle value: removes exactly the addressed element iff the slot is live and the version matches, order of the others unchanged, else nothing changes; invariant restored"
     list_harness!(vk_c03_list_remove_at_c3_l2_f2, remove_at_contract, 3, 2, 2);
-    // @harness ids=C03,C01 tier=quick kind=bounded bound="capacity=3 (storage length 2, free-stack length 2; all contents, links, versions symbolic under the invariant)" units=outstation::database::details::event::list::VecList::remove_first,outstation::database::details::event::list::VecList::find_first timeout=200 note="for every predicate (symbolic truth table): removes exactly the oldest matching element and returns its data, None and unchanged iff none matches; invariant restored"
+    // @harness ids=C03,C01 tier=thorough kind=bounded bound="capacity=3 (storage length 2, free-stack length 2; all contents, links, versions symbolic under the invariant)" units=outstation::database::details::event::list::VecList::remove_first,outstation::database::details::event::list::VecList::find_first timeout=250 note="for every predicate (symbolic truth table): removes exactly the oldest matching element and returns its data, None and unchanged iff none matches; invariant restored"
     list_harness!(vk_c03_list_remove_first_c3_l2_f2, remove_first_contract, 3, 2, 2);
-    // @harness ids=C03,C01 tier=quick kind=bounded bound="capacity=3 (storage length 2, free-stack length 2; all contents, links, versions symbolic under the invariant)" units=outstation::database::details::event::list::VecList::remove_all timeout=200 note="for every predicate: asks it once per element oldest first, removes exactly the matching ones, survivors keep order/handle/data, returns the number removed; invariant restored"
-    list_harness!(vk_c03_list_remove_all_c3_l2_f2, remove_all_contract, 3, 2, 2);
-    // @harness ids=C03,C01 tier=quick kind=bounded bound="capacity=3 (storage length 2, free-stack length 2; all contents, links, versions symbolic under the invariant)" units=outstation::database::details::event::list::VecList::iter,outstation::database::details::event::list::ListIterator::next,outstation::database::details::event::list::VecList::find_first,outstation::database::details::event::list::VecList::len,outstation::database::details::event::list::VecList::is_full timeout=200 note="iteration yields exactly the live elements oldest first with their handles; find_first returns the oldest match; nothing changes"
+    // @harness ids=C03,C01 tier=thorough kind=bounded bound="capacity=3 (storage length 2, free-stack length 2; all contents, links, versions symbolic under the invariant)" units=outstation::database::details::event::list::VecList::iter,outstation::database::details::event::list::ListIterator::next,outstation::database::details::event::list::VecList::find_first,outstation::database::details::event::list::VecList::len,outstation::database::details::event::list::VecList::is_full timeout=250 note="iteration yields exactly the live elements oldest first with their handles; find_first returns the oldest match; nothing changes"
     list_harness!(vk_c03_list_iter_c3_l2_f2, iter_contract, 3, 2, 2);
-    // @harness ids=C03,C01 tier=quick kind=bounded bound="capacity=3 (storage length 3, free-stack length 0; all contents, links, versions symbolic under the invariant)" units=outstation::database::details::event::list::VecList::add timeout=200 note="add appends at the tail under a fresh handle, earlier elements keep order/handle/data; a full list refuses and is unchanged; invariant restored"
+    // @harness ids=C03,C01 tier=thorough kind=bounded bound="capacity=3 (storage length 2, free-stack length 2, predicate answers = bits of 0; all contents, links, versions symbolic under the invariant)" units=outstation::database::details::event::list::VecList::remove_all timeout=250 note="the predicate is asked once per element oldest first; exactly the elements it accepts are removed, survivors keep order/handle/data; returns the number removed; invariant restored (all 2^size answer patterns enumerated)"
+    list_harness!(vk_c03_list_remove_all_c3_l2_f2_m0, remove_all_contract, 3, 2, 2, 0);
+    // @harness ids=C03,C01 tier=quick kind=bounded bound="capacity=3 (storage length 3, free-stack length 0; all contents, links, versions symbolic under the invariant)" units=outstation::database::details::event::list::VecList::add timeout=250 note="add appends at the tail under a fresh handle, earlier elements keep order/handle/data; a full list refuses and is unchanged; invariant restored"
     list_harness!(vk_c03_list_add_c3_l3_f0, add_contract, 3, 3, 0);
-    // @harness ids=C03,C01 tier=quick kind=bounded bound="capacity=3 (storage length 3, free-stack length 0; all contents, links, versions symbolic under the invariant)" units=outstation::database::details::event::list::VecList::remove_at timeout=200 note="for every handle value: removes exactly the addressed element iff the slot is live and the version matches, order of the others unchanged, else nothing changes; invariant restored"
+    // @harness ids=C03,C01 tier=quick kind=bounded bound="capacity=3 (storage length 3, free-stack length 0; all contents, links, versions symbolic under the invariant)" units=outstation::database::details::event::list::VecList::remove_at timeout=250 note="for every handle value: removes exactly the addressed element iff the slot is live and the version matches, order of the others unchanged, else nothing changes; invariant restored"
     list_harness!(vk_c03_list_remove_at_c3_l3_f0, remove_at_contract, 3, 3, 0);
-    // @harness ids=C03,C01 tier=quick kind=bounded bound="capacity=3 (storage length 3, free-stack length 0; all contents, links, versions symbolic under the invariant)" units=outstation::database::details::event::list::VecList::remove_first,outstation::database::details::event::list::VecList::find_first timeout=200 note="for every predicate (symbolic truth table): removes exactly the oldest matching element and returns its data, None and unchanged iff none matches; invariant restored"
+    // @harness ids=C03,C01 tier=quick kind=bounded bound="capacity=3 (storage length 3, free-stack length 0; all contents, links, versions symbolic under the invariant)" units=outstation::database::details::event::list::VecList::remove_first,outstation::database::details::event::list::VecList::find_first timeout=250 note="for every predicate (symbolic truth table): removes exactly the oldest matching element and returns its data, None and unchanged iff none matches; invariant restored"
     list_harness!(vk_c03_list_remove_first_c3_l3_f0, remove_first_contract, 3, 3, 0);
-    // @harness ids=C03,C01 tier=quick kind=bounded bound="capacity=3 (storage length 3, free-stack length 0; all contents, links, versions symbolic under the invariant)" units=outstation::database::details::event::list::VecList::remove_all timeout=200 note="for every predicate: asks it once per element oldest first, removes exactly the matching ones, survivors keep order/handle/data, returns the number removed; invariant restored"
-    list_harness!(vk_c03_list_remove_all_c3_l3_f0, remove_all_contract, 3, 3, 0);
-    // @harness ids=C03,C01 tier=quick kind=bounded bound="capacity=3 (storage length 3, free-stack length 0; all contents, links, versions symbolic under the invariant)" units=outstation::database::details::event::list::VecList::iter,outstation::database::details::event::list::ListIterator::next,outstation::database::details::event::list::VecList::find_first,outstation::database::details::event::list::VecList::len,outstation::database::details::event::list::VecList::is_full timeout=200 note="iteration yields exactly the live elements oldest first with their handles; find_first returns the oldest match; nothing changes"
+    // @harness ids=C03,C01 tier=quick kind=bounded bound="capacity=3 (storage length 3, free-stack length 0; all contents, links, versions symbolic under the invariant)" units=outstation::database::details::event::list::VecList::iter,outstation::database::details::event::list::ListIterator::next,outstation::database::details::event::list::VecList::find_first,outstation::database::details::event::list::VecList::len,outstation::database::details::event::list::VecList::is_full timeout=250 note="iteration yields exactly the live elements oldest first with their handles; find_first returns the oldest match; nothing changes"
     list_harness!(vk_c03_list_iter_c3_l3_f0, iter_contract, 3, 3, 0);
-    // @harness ids=C03,C01 tier=quick kind=bounded bound="capacity=3 (storage length 3, free-stack length 1; all contents, links, versions symbolic under the invariant)" units=outstation::database::details::event::list::VecList::add timeout=200 note="add appends at the tail under a fresh handle, earlier elements keep order/handle/data; a full list refuses and is unchanged; invariant restored"
+    // @harness ids=C03,C01 tier=quick kind=bounded bound="capacity=3 (storage length 3, free-stack length 0, predicate answers = bits of 0; all contents, links, versions symbolic under the invariant)" units=outstation::database::details::event::list::VecList::remove_all timeout=250 note="the predicate is asked once per element oldest first; exactly the elements it accepts are removed, survivors keep order/handle/data; returns the number removed; invariant restored (all 2^size answer patterns enumerated)"
+    list_harness!(vk_c03_list_remove_all_c3_l3_f0_m0, remove_all_contract, 3, 3, 0, 0);
+    // @harness ids=C03,C01 tier=quick kind=bounded bound="capacity=3 (storage length 3, free-stack length 0, predicate answers = bits of 1; all contents, links, versions symbolic under the invariant)" units=outstation::database::details::event::list::VecList::remove_all timeout=250 note="the predicate is asked once per element oldest first; exactly the elements it accepts are removed, survivors keep order/handle/data; returns the number removed; invariant restored (all 2^size answer patterns enumerated)"
+    list_harness!(vk_c03_list_remove_all_c3_l3_f0_m1, remove_all_contract, 3, 3, 0, 1);
+    // @harness ids=C03,C01 tier=quick kind=bounded bound="capacity=3 (storage length 3, free-stack length 0, predicate answers = bits of 2; all contents, links, versions symbolic under the invariant)" units=outstation::database::details::event::list::VecList::remove_all timeout=250 note="the predicate is asked once per element oldest first; exactly the elements it accepts are removed, survivors keep order/handle/data; returns the number removed; invariant restored (all 2^size answer patterns enumerated)"
+    list_harness!(vk_c03_list_remove_all_c3_l3_f0_m2, remove_all_contract, 3, 3, 0, 2);
+    // @harness ids=C03,C01 tier=quick kind=bounded bound="capacity=3 (storage length 3, free-stack length 0, predicate answers = bits of 3; all contents, links, versions symbolic under the invariant)" units=outstation::database::details::event::list::VecList::remove_all timeout=250 note="the predicate is asked once per element oldest first; exactly the elements it accepts are removed, survivors keep order/handle/data; returns the number removed; invariant restored (all 2^size answer patterns enumerated)"
+    list_harness!(vk_c03_list_remove_all_c3_l3_f0_m3, remove_all_contract, 3, 3, 0, 3);
+    // @harness ids=C03,C01 tier=quick kind=bounded bound="capacity=3 (storage length 3, free-stack length 0, predicate answers = bits of 4; all contents, links, versions symbolic under the invariant)" units=outstation::database::details::event::list::VecList::remove_all timeout=250 note="the predicate is asked once per element oldest first; exactly the elements it accepts are removed, survivors keep order/handle/data; returns the number removed; invariant restored (all 2^size answer patterns enumerated)"
+    list_harness!(vk_c03_list_remove_all_c3_l3_f0_m4, remove_all_contract, 3, 3, 0, 4);
+    // @harness ids=C03,C01 tier=quick kind=bounded bound="capacity=3 (storage length 3, free-stack length 0, predicate answers = bits of 5; all contents, links, versions symbolic under the invariant)" units=outstation::database::details::event::list::VecList::remove_all timeout=250 note="the predicate is asked once per element oldest first; exactly the elements it accepts are removed, survivors keep order/handle/data; returns the number removed; invariant restored (all 2^size answer patterns enumerated)"
+    list_harness!(vk_c03_list_remove_all_c3_l3_f0_m5, remove_all_contract, 3, 3, 0, 5);
+    // @harness ids=C03,C01 tier=quick kind=bounded bound="capacity=3 (storage length 3, free-stack length 0, predicate answers = bits of 6; all contents, links, versions symbolic under the invariant)" units=outstation::database::details::event::list::VecList::remove_all timeout=250 note="the predicate is asked once per element oldest first; exactly the elements it accepts are removed, survivors keep order/handle/data; returns the number removed; invariant restored (all 2^size answer patterns enumerated)"
+    list_harness!(vk_c03_list_remove_all_c3_l3_f0_m6, remove_all_contract, 3, 3, 0, 6);
+    // @harness ids=C03,C01 tier=quick kind=bounded bound="capacity=3 (storage length 3, free-stack length 0, predicate answers = bits of 7; all contents, links, versions symbolic under the invariant)" units=outstation::database::details::event::list::VecList::remove_all timeout=250 note="the predicate is asked once per element oldest first; exactly the elements it accepts are removed, survivors keep order/handle/data; returns the number removed; invariant restored (all 2^size answer patterns enumerated)"
+    list_harness!(vk_c03_list_remove_all_c3_l3_f0_m7, remove_all_contract, 3, 3, 0, 7);
+    // @harness ids=C03,C01 tier=quick kind=bounded bound="capacity=3 (storage length 3, free-stack length 1; all contents, links, versions symbolic under the invariant)" units=outstation::database::details::event::list::VecList::add timeout=250 note="add appends at the tail under a fresh handle, earlier elements keep order/handle/data; a full list refuses and is unchanged; invariant restored"
     list_harness!(vk_c03_list_add_c3_l3_f1, add_contract, 3, 3, 1);
-    // @harness ids=C03,C01 tier=quick kind=bounded bound="capacity=3 (storage length 3, free-stack length 1; all contents, links, versions symbolic under the invariant)" units=outstation::database::details::event::list::VecList::remove_at timeout=200 note="for every handle value: removes exactly the addressed element iff the slot is live and the version matches, order of the others unchanged, else nothing changes; invariant restored"
+    // @harness ids=C03,C01 tier=quick kind=bounded bound="capacity=3 (storage length 3, free-stack length 1; all contents, links, versions symbolic under the invariant)" units=outstation::database::details::event::list::VecList::remove_at timeout=250 note="for every handle value: removes exactly the addressed element iff the slot is live and the version matches, order of the others unchanged, else nothing changes; invariant restored"
     list_harness!(vk_c03_list_remove_at_c3_l3_f1, remove_at_contract, 3, 3, 1);
-    // @harness ids=C03,C01 tier=quick kind=bounded bound="capacity=3 (storage length 3, free-stack length 1; all contents, links, versions symbolic under the invariant)" units=outstation::database::details::event::list::VecList::remove_first,outstation::database::details::event::list::VecList::find_first timeout=200 note="for every predicate (symbolic truth table): removes exactly the oldest matching element and returns its data, None and unchanged iff none matches; invariant restored"
+    // @harness ids=C03,C01 tier=quick kind=bounded bound="capacity=3 (storage length 3, free-stack length 1; all contents, links, versions symbolic under the invariant)" units=outstation::database::details::event::list::VecList::remove_first,outstation::database::details::event::list::VecList::find_first timeout=250 note="for every predicate (symbolic truth table): removes exactly the oldest matching element and returns its data, None and unchanged iff none matches; invariant restored"
     list_harness!(vk_c03_list_remove_first_c3_l3_f1, remove_first_contract, 3, 3, 1);
-    // @harness ids=C03,C01 tier=quick kind=bounded bound="capacity=3 (storage length 3, free-stack length 1; all contents, links, versions symbolic under the invariant)" units=outstation::database::details::event::list::VecList::remove_all timeout=200 note="for every predicate: asks it once per element oldest first, removes exactly the matching ones, survivors keep order/handle/data, returns the number removed; invariant restored"
-    list_harness!(vk_c03_list_remove_all_c3_l3_f1, remove_all_contract, 3, 3, 1);
-    // @harness ids=C03,C01 tier=quick kind=bounded bound="capacity=3 (storage length 3, free-stack length 1; all contents, links, versions symbolic under the invariant)" units=outstation::database::details::event::list::VecList::iter,outstation::database::details::event::list::ListIterator::next,outstation::database::details::event::list::VecList::find_first,outstation::database::details::event::list::VecList::len,outstation::database::details::event::list::VecList::is_full timeout=200 note="iteration yields exactly the live elements oldest first with their handles; find_first returns the oldest match; nothing changes"
+    // @harness ids=C03,C01 tier=quick kind=bounded bound="capacity=3 (storage length 3, free-stack length 1; all contents, links, versions symbolic under the invariant)" units=outstation::database::details::event::list::VecList::iter,outstation::database::details::event::list::ListIterator::next,outstation::database::details::event::list::VecList::find_first,outstation::database::details::event::list::VecList::len,outstation::database::details::event::list::VecList::is_full timeout=250 note="iteration yields exactly the live elements oldest first with their handles; find_first returns the oldest match; nothing changes"
     list_harness!(vk_c03_list_iter_c3_l3_f1, iter_contract, 3, 3, 1);
-    // @harness ids=C03,C01 tier=quick kind=bounded bound="capacity=3 (storage length 3, free-stack length 2; all contents, links, versions symbolic under the invariant)" units=outstation::database::details::event::list::VecList::add timeout=200 note="add appends at the tail under a fresh handle, earlier elements keep order/handle/data; a full list refuses and is unchanged; invariant restored"
+    // @harness ids=C03,C01 tier=quick kind=bounded bound="capacity=3 (storage length 3, free-stack length 1, predicate answers = bits of 0; all contents, links, versions symbolic under the invariant)" units=outstation::database::details::event::list::VecList::remove_all timeout=250 note="the predicate is asked once per element oldest first; exactly the elements it accepts are removed, survivors keep order/handle/data; returns the number removed; invariant restored (all 2^size answer patterns enumerated)"
+    list_harness!(vk_c03_list_remove_all_c3_l3_f1_m0, remove_all_contract, 3, 3, 1, 0);
+    // @harness ids=C03,C01 tier=quick kind=bounded bound="capacity=3 (storage length 3, free-stack length 1, predicate answers = bits of 1; all contents, links, versions symbolic under the invariant)" units=outstation::database::details::event::list::VecList::remove_all timeout=250 note="the predicate is asked once per element oldest first; exactly the elements it accepts are removed, survivors keep order/handle/data; returns the number removed; invariant restored (all 2^size answer patterns enumerated)"
+    list_harness!(vk_c03_list_remove_all_c3_l3_f1_m1, remove_all_contract, 3, 3, 1, 1);
+    // @harness ids=C03,C01 tier=quick kind=bounded bound="capacity=3 (storage length 3, free-stack length 1, predicate answers = bits of 2; all contents, links, versions symbolic under the invariant)" units=outstation::database::details::event::list::VecList::remove_all timeout=250 note="the predicate is asked once per element oldest first; exactly the elements it accepts are removed, survivors keep order/handle/data; returns the number removed; invariant restored (all 2^size answer patterns enumerated)"
+    list_harness!(vk_c03_list_remove_all_c3_l3_f1_m2, remove_all_contract, 3, 3, 1, 2);
+    // @harness ids=C03,C01 tier=quick kind=bounded bound="capacity=3 (storage length 3, free-stack length 1, predicate answers = bits of 3; all contents, links, versions symbolic under the invariant)" units=outstation::database::details::event::list::VecList::remove_all timeout=250 note="the predicate is asked once per element oldest first; exactly the elements it accepts are removed, survivors keep order/handle/data; returns the number removed; invariant restored (all 2^size answer patterns enumerated)"
+    list_harness!(vk_c03_list_remove_all_c3_l3_f1_m3, remove_all_contract, 3, 3, 1, 3);
+    // @harness ids=C03,C01 tier=quick kind=bounded bound="capacity=3 (storage length 3, free-stack length 2; all contents, links, versions symbolic under the invariant)" units=outstation::database::details::event::list::VecList::add timeout=250 note="add appends at the tail under a fresh handle, earlier elements keep order/handle/data; a full list refuses and is unchanged; invariant restored"
     list_harness!(vk_c03_list_add_c3_l3_f2, add_contract, 3, 3, 2);
-    // @harness ids=C03,C01 tier=quick kind=bounded bound="capacity=3 (storage length 3, free-stack length 2; all contents, links, versions symbolic under the invariant)" units=outstation::database::details::event::list::VecList::remove_at timeout=200 note="for every handle value: removes exactly the addressed element iff the slot is live and the version matches, order of the others unchanged, else nothing changes; invariant restored"
+    // @harness ids=C03,C01 tier=quick kind=bounded bound="capacity=3 (storage length 3, free-stack length 2; all contents, links, versions symbolic under the invariant)" units=outstation::database::details::event::list::VecList::remove_at timeout=250 note="for every handle value: removes exactly the addressed element iff the slot is live and the version matches, order of the others unchanged, else nothing changes; invariant restored"
     list_harness!(vk_c03_list_remove_at_c3_l3_f2, remove_at_contract, 3, 3, 2);
-    // @harness ids=C03,C01 tier=quick kind=bounded bound="capacity=3 (storage length 3, free-stack length 2; all contents, links, versions symbolic under the invariant)" units=outstation::database::details::event::list::VecList::remove_first,outstation::database::details::event::list::VecList::find_first timeout=200 note="for every predicate (symbolic truth table): removes exactly the oldest matching element and returns its data, None and unchanged iff none matches; invariant restored"
+    // @harness ids=C03,C01 tier=quick kind=bounded bound="capacity=3 (storage length 3, free-stack length 2; all contents, links, versions symbolic under the invariant)" units=outstation::database::details::event::list::VecList::remove_first,outstation::database::details::event::list::VecList::find_first timeout=250 note="for every predicate (symbolic truth table): removes exactly the oldest matching element and returns its data, None and unchanged iff none matches; invariant restored"
     list_harness!(vk_c03_list_remove_first_c3_l3_f2, remove_first_contract, 3, 3, 2);
-    // @harness ids=C03,C01 tier=quick kind=bounded bound="capacity=3 (storage length 3, free-stack length 2; all contents, links, versions symbolic under the invariant)" units=outstation::database::details::event::list::VecList::remove_all timeout=200 note="for every predicate: asks it once per element oldest first, removes exactly the matching ones, survivors keep order/handle/data, returns the number removed; invariant restored"
-    list_harness!(vk_c03_list_remove_all_c3_l3_f2, remove_all_contract, 3, 3, 2);
-    // @harness ids=C03,C01 tier=quick kind=bounded bound="capacity=3 (storage length 3, free-stack length 2; all contents, links, versions symbolic under the invariant)" units=outstation::database::details::event::list::VecList::iter,outstation::database::details::event::list::ListIterator::next,outstation::database::details::event::list::VecList::find_first,outstation::database::details::event::list::VecList::len,outstation::database::details::event::list::VecList::is_full timeout=200 note="iteration yields exactly the live elements oldest first with their handles; find_first returns the oldest match; nothing changes"
+    // @harness ids=C03,C01 tier=quick kind=bounded bound="capacity=3 (storage length 3, free-stack length 2; all contents, links, versions symbolic under the invariant)" units=outstation::database::details::event::list::VecList::iter,outstation::database::details::event::list::ListIterator::next,outstation::database::details::event::list::VecList::find_first,outstation::database::details::event::list::VecList::len,outstation::database::details::event::list::VecList::is_full timeout=250 note="iteration yields exactly the live elements oldest first with their handles; find_first returns the oldest match; nothing changes"
     list_harness!(vk_c03_list_iter_c3_l3_f2, iter_contract, 3, 3, 2);
-    // @harness ids=C03,C01 tier=quick kind=bounded bound="capacity=3 (storage length 3, free-stack length 3; all contents, links, versions symbolic under the invariant)" units=outstation::database::details::event::list::VecList::add timeout=200 note="add appends at the tail under a fresh handle, earlier elements keep order/handle/data; a full list refuses and is unchanged; invariant restored"
+    // @harness ids=C03,C01 tier=quick kind=bounded bound="capacity=3 (storage length 3, free-stack length 2, predicate answers = bits of 0; all contents, links, versions symbolic under the invariant)" units=outstation::database::details::event::list::VecList::remove_all timeout=250 note="the predicate is asked once per element oldest first; exactly the elements it accepts are removed, survivors keep order/handle/data; returns the number removed; invariant restored (all 2^size answer patterns enumerated)"
+    list_harness!(vk_c03_list_remove_all_c3_l3_f2_m0, remove_all_contract, 3, 3, 2, 0);
+    // @harness ids=C03,C01 tier=quick kind=bounded bound="capacity=3 (storage length 3, free-stack length 2, predicate answers = bits of 1; all contents, links, versions symbolic under the invariant)" units=outstation::database::details::event::list::VecList::remove_all timeout=250 note="the predicate is asked once per element oldest first; exactly the elements it accepts are removed, survivors keep order/handle/data; returns the number removed; invariant restored (all 2^size answer patterns enumerated)"
+    list_harness!(vk_c03_list_remove_all_c3_l3_f2_m1, remove_all_contract, 3, 3, 2, 1);
+    // @harness ids=C03,C01 tier=quick kind=bounded bound="capacity=3 (storage length 3, free-stack length 3; all contents, links, versions symbolic under the invariant)" units=outstation::database::details::event::list::VecList::add timeout=250 note="add appends at the tail under a fresh handle, earlier elements keep order/handle/data; a full list refuses and is unchanged; invariant restored"
     list_harness!(vk_c03_list_add_c3_l3_f3, add_contract, 3, 3, 3);
-    // @harness ids=C03,C01 tier=quick kind=bounded bound="capacity=3 (storage length 3, free-stack length 3; all contents, links, versions symbolic under the invariant)" units=outstation::database::details::event::list::VecList::remove_at timeout=200 note="for every handle value: removes exactly the addressed element iff the slot is live and the version matches, order of the others unchanged, else nothing changes; invariant restored"
+    // @harness ids=C03,C01 tier=quick kind=bounded bound="capacity=3 (storage length 3, free-stack length 3; all contents, links, versions symbolic under the invariant)" units=outstation::database::details::event::list::VecList::remove_at timeout=250 note="for every handle value: removes exactly the addressed element iff the slot is live and the version matches, order of the others unchanged, else nothing changes; invariant restored"
     list_harness!(vk_c03_list_remove_at_c3_l3_f3, remove_at_contract, 3, 3, 3);
-    // @harness ids=C03,C01 tier=quick kind=bounded bound="capacity=3 (storage length 3, free-stack length 3; all contents, links, versions symbolic under the invariant)" units=outstation::database::details::event::list::VecList::remove_first,outstation::database::details::event::list::VecList::find_first timeout=200 note="for every predicate (symbolic truth table): removes exactly the oldest matching element and returns its data, None and unchanged iff none matches; invariant restored"
+    // @harness ids=C03,C01 tier=quick kind=bounded bound="capacity=3 (storage length 3, free-stack length 3; all contents, links, versions symbolic under the invariant)" units=outstation::database::details::event::list::VecList::remove_first,outstation::database::details::event::list::VecList::find_first timeout=250 note="for every predicate (symbolic truth table): removes exactly the oldest matching element and returns its data, None and unchanged iff none matches; invariant restored"
     list_harness!(vk_c03_list_remove_first_c3_l3_f3, remove_first_contract, 3, 3, 3);
-    // @harness ids=C03,C01 tier=quick kind=bounded bound="capacity=3 (storage length 3, free-stack length 3; all contents, links, versions symbolic under the invariant)" units=outstation::database::details::event::list::VecList::remove_all timeout=200 note="for every predicate: asks it once per element oldest first, removes exactly the matching ones, survivors keep order/handle/data, returns the number removed; invariant restored"
-    list_harness!(vk_c03_list_remove_all_c3_l3_f3, remove_all_contract, 3, 3, 3);
-    // @harness ids=C03,C01 tier=quick kind=bounded bound="capacity=3 (storage length 3, free-stack length 3; all contents, links, versions symbolic under the invariant)" units=outstation::database::details::event::list::VecList::iter,outstation::database::details::event::list::ListIterator::next,outstation::database::details::event::list::VecList::find_first,outstation::database::details::event::list::VecList::len,outstation::database::details::event::list::VecList::is_full timeout=200 note="iteration yields exactly the live elements oldest first with their handles; find_first returns the oldest match; nothing changes"
+    // @harness ids=C03,C01 tier=quick kind=bounded bound="capacity=3 (storage length 3, free-stack length 3; all contents, links, versions symbolic under the invariant)" units=outstation::database::details::event::list::VecList::iter,outstation::database::details::event::list::ListIterator::next,outstation::database::details::event::list::VecList::find_first,outstation::database::details::event::list::VecList::len,outstation::database::details::event::list::VecList::is_full timeout=250 note="iteration yields exactly the live elements oldest first with their handles; find_first returns the oldest match; nothing changes"
     list_harness!(vk_c03_list_iter_c3_l3_f3, iter_contract, 3, 3, 3);
-    // @harness ids=C03,C01 tier=thorough kind=bounded bound="capacity=2 (storage length 0, free-stack length 0; all contents, links, versions symbolic under the invariant)" units=outstation::database::details::event::list::VecList::add timeout=200 note="add appends at the tail under a fresh handle, earlier elements keep order/handle/data; a full list refuses and is unchanged; invariant restored"
+    // @harness ids=C03,C01 tier=quick kind=bounded bound="capacity=3 (storage length 3, free-stack length 3, predicate answers = bits of 0; all contents, links, versions symbolic under the invariant)" units=outstation::database::details::event::list::VecList::remove_all timeout=250 note="the predicate is asked once per element oldest first; exactly the elements it accepts are removed, survivors keep order/handle/data; returns the number removed; invariant restored (all 2^size answer patterns enumerated)"
+    list_harness!(vk_c03_list_remove_all_c3_l3_f3_m0, remove_all_contract, 3, 3, 3, 0);
+    // @harness ids=C03,C01 tier=thorough kind=bounded bound="capacity=2 (storage length 0, free-stack length 0; all contents, links, versions symbolic under the invariant)" units=outstation::database::details::event::list::VecList::add timeout=250 note="add appends at the tail under a fresh handle, earlier elements keep order/handle/data; a full list refuses and is unchanged; invariant restored"
     list_harness!(vk_c03_list_add_c2_l0_f0, add_contract, 2, 0, 0);
-    // @harness ids=C03,C01 tier=thorough kind=bounded bound="capacity=2 (storage length 0, free-stack length 0; all contents, links, versions symbolic under the invariant)" units=outstation::database::details::event::list::VecList::remove_at timeout=200 note="for every handle value: removes exactly the addressed element iff the slot is live and the version matches, order of the others unchanged, else nothing changes; invariant restored"
+    // @harness ids=C03,C01 tier=thorough kind=bounded bound="capacity=2 (storage length 0, free-stack length 0; all contents, links, versions symbolic under the invariant)" units=outstation::database::details::event::list::VecList::remove_at timeout=250 note="for every handle value: removes exactly the addressed element iff the slot is live and the version matches, order of the others unchanged, else nothing changes; invariant restored"
     list_harness!(vk_c03_list_remove_at_c2_l0_f0, remove_at_contract, 2, 0, 0);
-    // @harness ids=C03,C01 tier=thorough kind=bounded bound="capacity=2 (storage length 0, free-stack length 0; all contents, links, versions symbolic under the invariant)" units=outstation::database::details::event::list::VecList::remove_first,outstation::database::details::event::list::VecList::find_first timeout=200 note="for every predicate (symbolic truth table): removes exactly the oldest matching element and returns its data, None and unchanged iff none matches; invariant restored"
+    // @harness ids=C03,C01 tier=thorough kind=bounded bound="capacity=2 (storage length 0, free-stack length 0; all contents, links, versions symbolic under the invariant)" units=outstation::database::details::event::list::VecList::remove_first,outstation::database::details::event::list::VecList::find_first timeout=250 note="for every predicate (symbolic truth table): removes exactly the oldest matching element and returns its data, None and unchanged iff none matches; invariant restored"
     list_harness!(vk_c03_list_remove_first_c2_l0_f0, remove_first_contract, 2, 0, 0);
-    // @harness ids=C03,C01 tier=thorough kind=bounded bound="capacity=2 (storage length 0, free-stack length 0; all contents, links, versions symbolic under the invariant)" units=outstation::database::details::event::list::VecList::remove_all timeout=200 note="for every predicate: asks it once per element oldest first, removes exactly the matching ones, survivors keep order/handle/data, returns the number removed; invariant restored"
-    list_harness!(vk_c03_list_remove_all_c2_l0_f0, remove_all_contract, 2, 0, 0);
-    // @harness ids=C03,C01 tier=thorough kind=bounded bound="capacity=2 (storage length 0, free-stack length 0; all contents, links, versions symbolic under the invariant)" units=outstation::database::details::event::list::VecList::iter,outstation::database::details::event::list::ListIterator::next,outstation::database::details::event::list::VecList::find_first,outstation::database::details::event::list::VecList::len,outstation::database::details::event::list::VecList::is_full timeout=200 note="iteration yields exactly the live elements oldest first with their handles; find_first returns the oldest match; nothing changes"
+    // @harness ids=C03,C01 tier=thorough kind=bounded bound="capacity=2 (storage length 0, free-stack length 0; all contents, links, versions symbolic under the invariant)" units=outstation::database::details::event::list::VecList::iter,outstation::database::details::event::list::ListIterator::next,outstation::database::details::event::list::VecList::find_first,outstation::database::details::event::list::VecList::len,outstation::database::details::event::list::VecList::is_full timeout=250 note="iteration yields exactly the live elements oldest first with their handles; find_first returns the oldest match; nothing changes"
     list_harness!(vk_c03_list_iter_c2_l0_f0, iter_contract, 2, 0, 0);
-    // @harness ids=C03,C01 tier=thorough kind=bounded bound="capacity=2 (storage length 1, free-stack length 0; all contents, links, versions symbolic under the invariant)" units=outstation::database::details::event::list::VecList::add timeout=200 note="add appends at the tail under a fresh handle, earlier elements keep order/handle/data; a full list refuses and is unchanged; invariant restored"
+    // @harness ids=C03,C01 tier=thorough kind=bounded bound="capacity=2 (storage length 0, free-stack length 0, predicate answers = bits of 0; all contents, links, versions symbolic under the invariant)" units=outstation::database::details::event::list::VecList::remove_all timeout=250 note="the predicate is asked once per element oldest first; exactly the elements it accepts are removed, survivors keep order/handle/data; returns the number removed; invariant restored (all 2^size answer patterns enumerated)"
+    list_harness!(vk_c03_list_remove_all_c2_l0_f0_m0, remove_all_contract, 2, 0, 0, 0);
+    // @harness ids=C03,C01 tier=thorough kind=bounded bound="capacity=2 (storage length 1, free-stack length 0; all contents, links, versions symbolic under the invariant)" units=outstation::database::details::event::list::VecList::add timeout=250 note="add appends at the tail under a fresh handle, earlier elements keep order/handle/data; a full list refuses and is unchanged; invariant restored"
     list_harness!(vk_c03_list_add_c2_l1_f0, add_contract, 2, 1, 0);
-    // @harness ids=C03,C01 tier=thorough kind=bounded bound="capacity=2 (storage length 1, free-stack length 0; all contents, links, versions symbolic under the invariant)" units=outstation::database::details::event::list::VecList::remove_at timeout=200 note="for every handle value: removes exactly the addressed element iff the slot is live and the version matches, order of the others unchanged, else nothing changes; invariant restored"
+    // @harness ids=C03,C01 tier=thorough kind=bounded bound="capacity=2 (storage length 1, free-stack length 0; all contents, links, versions symbolic under the invariant)" units=outstation::database::details::event::list::VecList::remove_at timeout=250 note="for every handle value: removes exactly the addressed element iff the slot is live and the version matches, order of the others unchanged, else nothing changes; invariant restored"
     list_harness!(vk_c03_list_remove_at_c2_l1_f0, remove_at_contract, 2, 1, 0);
-    // @harness ids=C03,C01 tier=thorough kind=bounded bound="capacity=2 (storage length 1, free-stack length 0; all contents, links, versions symbolic under the invariant)" units=outstation::database::details::event::list::VecList::remove_first,outstation::database::details::event::list::VecList::find_first timeout=200 note="for every predicate (symbolic truth table): removes exactly the oldest matching element and returns its data, None and unchanged iff none matches; invariant restored"
+    // @harness ids=C03,C01 tier=thorough kind=bounded bound="capacity=2 (storage length 1, free-stack length 0; all contents, links, versions symbolic under the invariant)" units=outstation::database::details::event::list::VecList::remove_first,outstation::database::details::event::list::VecList::find_first timeout=250 note="for every predicate (symbolic truth table): removes exactly the oldest matching element and returns its data, None and unchanged iff none matches; invariant restored"
     list_harness!(vk_c03_list_remove_first_c2_l1_f0, remove_first_contract, 2, 1, 0);
-    // @harness ids=C03,C01 tier=thorough kind=bounded bound="capacity=2 (storage length 1, free-stack length 0; all contents, links, versions symbolic under the invariant)" units=outstation::database::details::event::list::VecList::remove_all timeout=200 note="for every predicate: asks it once per element oldest first, removes exactly the matching ones, survivors keep order/handle/data, returns the number removed; invariant restored"
-    list_harness!(vk_c03_list_remove_all_c2_l1_f0, remove_all_contract, 2, 1, 0);
-    // @harness ids=C03,C01 tier=thorough kind=bounded bound="capacity=2 (storage length 1, free-stack length 0; all contents, links, versions symbolic under the invariant)" units=outstation::database::details::event::list::VecList::iter,outstation::database::details::event::list::ListIterator::next,outstation::database::details::event::list::VecList::find_first,outstation::database::details::event::list::VecList::len,outstation::database::details::event::list::VecList::is_full timeout=200 note="iteration yields exactly the live elements oldest first with their handles; find_first returns the oldest match; nothing changes"
+    // @harness ids=C03,C01 tier=thorough kind=bounded bound="capacity=2 (storage length 1, free-stack length 0; all contents, links, versions symbolic under the invariant)" units=outstation::database::details::event::list::VecList::iter,outstation::database::details::event::list::ListIterator::next,outstation::database::details::event::list::VecList::find_first,outstation::database::details::event::list::VecList::len,outstation::database::details::event::list::VecList::is_full timeout=250 note="iteration yields exactly the live elements oldest first with their handles; find_first returns the oldest match; nothing changes"
     list_harness!(vk_c03_list_iter_c2_l1_f0, iter_contract, 2, 1, 0);
-    // @harness ids=C03,C01 tier=thorough kind=bounded bound="capacity=2 (storage length 1, free-stack length 1; all contents, links, versions symbolic under the invariant)" units=outstation::database::details::event::list::VecList::add timeout=200 note="add appends at the tail under a fresh handle, earlier elements keep order/handle/data; a full list refuses and is unchanged; invariant restored"
+    // @harness ids=C03,C01 tier=thorough kind=bounded bound="capacity=2 (storage length 1, free-stack length 0, predicate answers = bits of 0; all contents, links, versions symbolic under the invariant)" units=outstation::database::details::event::list::VecList::remove_all timeout=250 note="the predicate is asked once per element oldest first; exactly the elements it accepts are removed, survivors keep order/handle/data; returns the number removed; invariant restored (all 2^size answer patterns enumerated)"
+    list_harness!(vk_c03_list_remove_all_c2_l1_f0_m0, remove_all_contract, 2, 1, 0, 0);
+    // @harness ids=C03,C01 tier=thorough kind=bounded bound="capacity=2 (storage length 1, free-stack length 0, predicate answers = bits of 1; all contents, links, versions symbolic under the invariant)" units=outstation::database::details::event::list::VecList::remove_all timeout=250 note="the predicate is asked once per element oldest first; exactly the elements it accepts are removed, survivors keep order/handle/data; returns the number removed; invariant restored (all 2^size answer patterns enumerated)"
+    list_harness!(vk_c03_list_remove_all_c2_l1_f0_m1, remove_all_contract, 2, 1, 0, 1);
+    // @harness ids=C03,C01 tier=thorough kind=bounded bound="capacity=2 (storage length 1, free-stack length 1; all contents, links, versions symbolic under the invariant)" units=outstation::database::details::event::list::VecList::add timeout=250 note="add appends at the tail under a fresh handle, earlier elements keep order/handle/data; a full list refuses and is unchanged; invariant restored"
     list_harness!(vk_c03_list_add_c2_l1_f1, add_contract, 2, 1, 1);
-    // @harness ids=C03,C01 tier=thorough kind=bounded bound="capacity=2 (storage length 1, free-stack length 1; all contents, links, versions symbolic under the invariant)" units=outstation::database::details::event::list::VecList::remove_at timeout=200 note="for every handle value: removes exactly the addressed element iff the slot is live and the version matches, order of the others unchanged, else nothing changes; invariant restored"
+    // @harness ids=C03,C01 tier=thorough kind=bounded bound="capacity=2 (storage length 1, free-stack length 1; all contents, links, versions symbolic under the invariant)" units=outstation::database::details::event::list::VecList::remove_at timeout=250 note="for every handle value: removes exactly the addressed element iff the slot is live and the version matches, order of the others unchanged, else nothing changes; invariant restored"
     list_harness!(vk_c03_list_remove_at_c2_l1_f1, remove_at_contract, 2, 1, 1);
-    // @harness ids=C03,C01 tier=thorough kind=bounded bound="capacity=2 (storage length 1, free-stack length 1; all contents, links, versions symbolic under the invariant)" units=outstation::database::details::event::list::VecList::remove_first,outstation::database::details::event::list::VecList::find_first timeout=200 note="for every predicate (symbolic truth table): removes exactly the oldest matching element and returns its data, None and unchanged iff none matches; invariant restored"
+    // @harness ids=C03,C01 tier=thorough kind=bounded bound="capacity=2 (storage length 1, free-stack length 1; all contents, links, versions symbolic under the invariant)" units=outstation::database::details::event::list::VecList::remove_first,outstation::database::details::event::list::VecList::find_first timeout=250 note="for every predicate (symbolic truth table): removes exactly the oldest matching element and returns its data, None and unchanged iff none matches; invariant restored"
     list_harness!(vk_c03_list_remove_first_c2_l1_f1, remove_first_contract, 2, 1, 1);
-    // @harness ids=C03,C01 tier=thorough kind=bounded bound="capacity=2 (storage length 1, free-stack length 1; all contents, links, versions symbolic under the invariant)" units=outstation::database::details::event::list::VecList::remove_all timeout=200 note="for every predicate: asks it once per element oldest first, removes exactly the matching ones, survivors keep order/handle/data, returns the number removed; invariant restored"
-    list_harness!(vk_c03_list_remove_all_c2_l1_f1, remove_all_contract, 2, 1, 1);
-    // @harness ids=C03,C01 tier=thorough kind=bounded bound="capacity=2 (storage length 1, free-stack length 1; all contents, links, versions symbolic under the invariant)" units=outstation::database::details::event::list::VecList::iter,outstation::database::details::event::list::ListIterator::next,outstation::database::details::event::list::VecList::find_first,outstation::database::details::event::list::VecList::len,outstation::database::details::event::list::VecList::is_full timeout=200 note="iteration yields exactly the live elements oldest first with their handles; find_first returns the oldest match; nothing changes"
+    // @harness ids=C03,C01 tier=thorough kind=bounded bound="capacity=2 (storage length 1, free-stack length 1; all contents, links, versions symbolic under the invariant)" units=outstation::database::details::event::list::VecList::iter,outstation::database::details::event::list::ListIterator::next,outstation::database::details::event::list::VecList::find_first,outstation::database::details::event::list::VecList::len,outstation::database::details::event::list::VecList::is_full timeout=250 note="iteration yields exactly the live elements oldest first with their handles; find_first returns the oldest match; nothing changes"
     list_harness!(vk_c03_list_iter_c2_l1_f1, iter_contract, 2, 1, 1);
-    // @harness ids=C03,C01 tier=thorough kind=bounded bound="capacity=2 (storage length 2, free-stack length 0; all contents, links, versions symbolic under the invariant)" units=outstation::database::details::event::list::VecList::add timeout=200 note="add appends at the tail under a fresh handle, earlier elements keep order/handle/data; a full list refuses and is unchanged; invariant restored"
+    // @harness ids=C03,C01 tier=thorough kind=bounded bound="capacity=2 (storage length 1, free-stack length 1, predicate answers = bits of 0; all contents, links, versions symbolic under the invariant)" units=outstation::database::details::event::list::VecList::remove_all timeout=250 note="the predicate is asked once per element oldest first; exactly the elements it accepts are removed, survivors keep order/handle/data; returns the number removed; invariant restored (all 2^size answer patterns enumerated)"
+    list_harness!(vk_c03_list_remove_all_c2_l1_f1_m0, remove_all_contract, 2, 1, 1, 0);
+    // @harness ids=C03,C01 tier=thorough kind=bounded bound="capacity=2 (storage length 2, free-stack length 0; all contents, links, versions symbolic under the invariant)" units=outstation::database::details::event::list::VecList::add timeout=250 note="add appends at the tail under a fresh handle, earlier elements keep order/handle/data; a full list refuses and is unchanged; invariant restored"
     list_harness!(vk_c03_list_add_c2_l2_f0, add_contract, 2, 2, 0);
-    // @harness ids=C03,C01 tier=thorough kind=bounded bound="capacity=2 (storage length 2, free-stack length 0; all contents, links, versions symbolic under the invariant)" units=outstation::database::details::event::list::VecList::remove_at timeout=200 note="for every handle value: removes exactly the addressed element iff the slot is live and the version matches, order of the others unchanged, else nothing changes; invariant restored"
+    // @harness ids=C03,C01 tier=thorough kind=bounded bound="capacity=2 (storage length 2, free-stack length 0; all contents, links, versions symbolic under the invariant)" units=outstation::database::details::event::list::VecList::remove_at timeout=250 note="for every handle value: removes exactly the addressed element iff the slot is live and the version matches, order of the others unchanged, else nothing changes; invariant restored"
     list_harness!(vk_c03_list_remove_at_c2_l2_f0, remove_at_contract, 2, 2, 0);
-    // @harness ids=C03,C01 tier=thorough kind=bounded bound="capacity=2 (storage length 2, free-stack length 0; all contents, links, versions symbolic under the invariant)" units=outstation::database::details::event::list::VecList::remove_first,outstation::database::details::event::list::VecList::find_first timeout=200 note="for every predicate (symbolic truth table): removes exactly the oldest matching element and returns its data, None and unchanged iff none matches; invariant restored"
+    // @harness ids=C03,C01 tier=thorough kind=bounded bound="capacity=2 (storage length 2, free-stack length 0; all contents, links, versions symbolic under the invariant)" units=outstation::database::details::event::list::VecList::remove_first,outstation::database::details::event::list::VecList::find_first timeout=250 note="for every predicate (symbolic truth table): removes exactly the oldest matching element and returns its data, None and unchanged iff none matches; invariant restored"
     list_harness!(vk_c03_list_remove_first_c2_l2_f0, remove_first_contract, 2, 2, 0);
-    // @harness ids=C03,C01 tier=thorough kind=bounded bound="capacity=2 (storage length 2, free-stack length 0; all contents, links, versions symbolic under the invariant)" units=outstation::database::details::event::list::VecList::remove_all timeout=200 note="for every predicate: asks it once per element oldest first, removes exactly the matching ones, survivors keep order/handle/data, returns the number removed; invariant restored"
-    list_harness!(vk_c03_list_remove_all_c2_l2_f0, remove_all_contract, 2, 2, 0);
-    // @harness ids=C03,C01 tier=thorough kind=bounded bound="capacity=2 (storage length 2, free-stack length 0; all contents, links, versions symbolic under the invariant)" units=outstation::database::details::event::list::VecList::iter,outstation::database::details::event::list::ListIterator::next,outstation::database::details::event::list::VecList::find_first,outstation::database::details::event::list::VecList::len,outstation::database::details::event::list::VecList::is_full timeout=200 note="iteration yields exactly the live elements oldest first with their handles; find_first returns the oldest match; nothing changes"
+    // @harness ids=C03,C01 tier=thorough kind=bounded bound="capacity=2 (storage length 2, free-stack length 0; all contents, links, versions symbolic under the invariant)" units=outstation::database::details::event::list::VecList::iter,outstation::database::details::event::list::ListIterator::next,outstation::database::details::event::list::VecList::find_first,outstation::database::details::event::list::VecList::len,outstation::database::details::event::list::VecList::is_full timeout=250 note="iteration yields exactly the live elements oldest first with their handles; find_first returns the oldest match; nothing changes"
     list_harness!(vk_c03_list_iter_c2_l2_f0, iter_contract, 2, 2, 0);
-    // @harness ids=C03,C01 tier=thorough kind=bounded bound="capacity=2 (storage length 2, free-stack length 1; all contents, links, versions symbolic under the invariant)" units=outstation::database::details::event::list::VecList::add timeout=200 note="add appends at the tail under a fresh handle, earlier elements keep order/handle/data; a full list refuses and is unchanged; invariant restored"
+    // @harness ids=C03,C01 tier=thorough kind=bounded bound="capacity=2 (storage length 2, free-stack length 0, predicate answers = bits of 0; all contents, links, versions symbolic under the invariant)" units=outstation::database::details::event::list::VecList::remove_all timeout=250 note="the predicate is asked once per element oldest first; exactly the elements it accepts are removed, survivors keep order/handle/data; returns the number removed; invariant restored (all 2^size answer patterns enumerated)"
+    list_harness!(vk_c03_list_remove_all_c2_l2_f0_m0, remove_all_contract, 2, 2, 0, 0);
+    // @harness ids=C03,C01 tier=thorough kind=bounded bound="capacity=2 (storage length 2, free-stack length 0, predicate answers = bits of 1; all contents, links, versions symbolic under the invariant)" units=outstation::database::details::event::list::VecList::remove_all timeout=250 note="the predicate is asked once per element oldest first; exactly the elements it accepts are removed, survivors keep order/handle/data; returns the number removed; invariant restored (all 2^size answer patterns enumerated)"
+    list_harness!(vk_c03_list_remove_all_c2_l2_f0_m1, remove_all_contract, 2, 2, 0, 1);
+    // @harness ids=C03,C01 tier=thorough kind=bounded bound="capacity=2 (storage length 2, free-stack length 0, predicate answers = bits of 2; all contents, links, versions symbolic under the invariant)" units=outstation::database::details::event::list::VecList::remove_all timeout=250 note="the predicate is asked once per element oldest first; exactly the elements it accepts are removed, survivors keep order/handle/data; returns the number removed; invariant restored (all 2^size answer patterns enumerated)"
+    list_harness!(vk_c03_list_remove_all_c2_l2_f0_m2, remove_all_contract, 2, 2, 0, 2);
+    // @harness ids=C03,C01 tier=thorough kind=bounded bound="capacity=2 (storage length 2, free-stack length 0, predicate answers = bits of 3; all contents, links, versions symbolic under the invariant)" units=outstation::database::details::event::list::VecList::remove_all timeout=250 note="the predicate is asked once per element oldest first; exactly the elements it accepts are removed, survivors keep order/handle/data; returns the number removed; invariant restored (all 2^size answer patterns enumerated)"
+    list_harness!(vk_c03_list_remove_all_c2_l2_f0_m3, remove_all_contract, 2, 2, 0, 3);
+    // @harness ids=C03,C01 tier=thorough kind=bounded bound="capacity=2 (storage length 2, free-stack length 1; all contents, links, versions symbolic under the invariant)" units=outstation::database::details::event::list::VecList::add timeout=250 note="add appends at the tail under a fresh handle, earlier elements keep order/handle/data; a full list refuses and is unchanged; invariant restored"
     list_harness!(vk_c03_list_add_c2_l2_f1, add_contract, 2, 2, 1);
-    // @harness ids=C03,C01 tier=thorough kind=bounded bound="capacity=2 (storage length 2, free-stack length 1; all contents, links, versions symbolic under the invariant)" units=outstation::database::details::event::list::VecList::remove_at timeout=200 note="for every handle value: removes exactly the addressed element iff the slot is live and the version matches, order of the others unchanged, else nothing changes; invariant restored"
+    // @harness ids=C03,C01 tier=thorough kind=bounded bound="capacity=2 (storage length 2, free-stack length 1; all contents, links, versions symbolic under the invariant)" units=outstation::database::details::event::list::VecList::remove_at timeout=250 note="for every handle value: removes exactly the addressed element iff the slot is live and the version matches, order of the others unchanged, else nothing changes; invariant restored"
     list_harness!(vk_c03_list_remove_at_c2_l2_f1, remove_at_contract, 2, 2, 1);
-    // @harness ids=C03,C01 tier=thorough kind=bounded bound="capacity=2 (storage length 2, free-stack length 1; all contents, links, versions symbolic under the invariant)" units=outstation::database::details::event::list::VecList::remove_first,outstation::database::details::event::list::VecList::find_first timeout=200 note="for every predicate (symbolic truth table): removes exactly the oldest matching element and returns its data, None and unchanged iff none matches; invariant restored"
+    // @harness ids=C03,C01 tier=thorough kind=bounded bound="capacity=2 (storage length 2, free-stack length 1; all contents, links, versions symbolic under the invariant)" units=outstation::database::details::event::list::VecList::remove_first,outstation::database::details::event::list::VecList::find_first timeout=250 note="for every predicate (symbolic truth table): removes exactly the oldest matching element and returns its data, None and unchanged iff none matches; invariant restored"
     list_harness!(vk_c03_list_remove_first_c2_l2_f1, remove_first_contract, 2, 2, 1);
-    // @harness ids=C03,C01 tier=thorough kind=bounded bound="capacity=2 (storage length 2, free-stack length 1; all contents, links, versions symbolic under the invariant)" units=outstation::database::details::event::list::VecList::remove_all timeout=200 note="for every predicate: asks it once per element oldest first, removes exactly the matching ones, survivors keep order/handle/data, returns the number removed; invariant restored"
-    list_harness!(vk_c03_list_remove_all_c2_l2_f1, remove_all_contract, 2, 2, 1);
-    // @harness ids=C03,C01 tier=thorough kind=bounded bound="capacity=2 (storage length 2, free-stack length 1; all contents, links, versions symbolic under the invariant)" units=outstation::database::details::event::list::VecList::iter,outstation::database::details::event::list::ListIterator::next,outstation::database::details::event::list::VecList::find_first,outstation::database::details::event::list::VecList::len,outstation::database::details::event::list::VecList::is_full timeout=200 note="iteration yields exactly the live elements oldest first with their handles; find_first returns the oldest match; nothing changes"
+    // @harness ids=C03,C01 tier=thorough kind=bounded bound="capacity=2 (storage length 2, free-stack length 1; all contents, links, versions symbolic under the invariant)" units=outstation::database::details::event::list::VecList::iter,outstation::database::details::event::list::ListIterator::next,outstation::database::details::event::list::VecList::find_first,outstation::database::details::event::list::VecList::len,outstation::database::details::event::list::VecList::is_full timeout=250 note="iteration yields exactly the live elements oldest first with their handles; find_first returns the oldest match; nothing changes"
     list_harness!(vk_c03_list_iter_c2_l2_f1, iter_contract, 2, 2, 1);
-    // @harness ids=C03,C01 tier=thorough kind=bounded bound="capacity=2 (storage length 2, free-stack length 2; all contents, links, versions symbolic under the invariant)" units=outstation::database::details::event::list::VecList::add timeout=200 note="add appends at the tail under a fresh handle, earlier elements keep order/handle/data; a full list refuses and is unchanged; invariant restored"
+    // @harness ids=C03,C01 tier=thorough kind=bounded bound="capacity=2 (storage length 2, free-stack length 1, predicate answers = bits of 0; all contents, links, versions symbolic under the invariant)" units=outstation::database::details::event::list::VecList::remove_all timeout=250 note="the predicate is asked once per element oldest first; exactly the elements it accepts are removed, survivors keep order/handle/data; returns the number removed; invariant restored (all 2^size answer patterns enumerated)"
+    list_harness!(vk_c03_list_remove_all_c2_l2_f1_m0, remove_all_contract, 2, 2, 1, 0);
+    // @harness ids=C03,C01 tier=thorough kind=bounded bound="capacity=2 (storage length 2, free-stack length 1, predicate answers = bits of 1; all contents, links, versions symbolic under the invariant)" units=outstation::database::details::event::list::VecList::remove_all timeout=250 note="the predicate is asked once per element oldest first; exactly the elements it accepts are removed, survivors keep order/handle/data; returns the number removed; invariant restored (all 2^size answer patterns enumerated)"
+    list_harness!(vk_c03_list_remove_all_c2_l2_f1_m1, remove_all_contract, 2, 2, 1, 1);
+    // @harness ids=C03,C01 tier=thorough kind=bounded bound="capacity=2 (storage length 2, free-stack length 2; all contents, links, versions symbolic under the invariant)" units=outstation::database::details::event::list::VecList::add timeout=250 note="add appends at the tail under a fresh handle, earlier elements keep order/handle/data; a full list refuses and is unchanged; invariant restored"
     list_harness!(vk_c03_list_add_c2_l2_f2, add_contract, 2, 2, 2);
-    // @harness ids=C03,C01 tier=thorough kind=bounded bound="capacity=2 (storage length 2, free-stack length 2; all contents, links, versions symbolic under the invariant)" units=outstation::database::details::event::list::VecList::remove_at timeout=200 note="for every handle value: removes exactly the addressed element iff the slot is live and the version matches, order of the others unchanged, else nothing changes; invariant restored"
+    // @harness ids=C03,C01 tier=thorough kind=bounded bound="capacity=2 (storage length 2, free-stack length 2; all contents, links, versions symbolic under the invariant)" units=outstation::database::details::event::list::VecList::remove_at timeout=250 note="for every handle value: removes exactly the addressed element iff the slot is live and the version matches, order of the others unchanged, else nothing changes; invariant restored"
     list_harness!(vk_c03_list_remove_at_c2_l2_f2, remove_at_contract, 2, 2, 2);
-    // @harness ids=C03,C01 tier=thorough kind=bounded bound="capacity=2 (storage length 2, free-stack length 2; all contents, links, versions symbolic under the invariant)" units=outstation::database::details::event::list::VecList::remove_first,outstation::database::details::event::list::VecList::find_first timeout=200 note="for every predicate (symbolic truth table): removes exactly the oldest matching element and returns its data, None and unchanged iff none matches; invariant restored"
+    // @harness ids=C03,C01 tier=thorough kind=bounded bound="capacity=2 (storage length 2, free-stack length 2; all contents, links, versions symbolic under the invariant)" units=outstation::database::details::event::list::VecList::remove_first,outstation::database::details::event::list::VecList::find_first timeout=250 note="for every predicate (symbolic truth table): removes exactly the oldest matching element and returns its data, None and unchanged iff none matches; invariant restored"
     list_harness!(vk_c03_list_remove_first_c2_l2_f2, remove_first_contract, 2, 2, 2);
-    // @harness ids=C03,C01 tier=thorough kind=bounded bound="capacity=2 (storage length 2, free-stack length 2; all contents, links, versions symbolic under the invariant)" units=outstation::database::details::event::list::VecList::remove_all timeout=200 note="for every predicate: asks it once per element oldest first, removes exactly the matching ones, survivors keep order/handle/data, returns the number removed; invariant restored"
-    list_harness!(vk_c03_list_remove_all_c2_l2_f2, remove_all_contract, 2, 2, 2);
-    // @harness ids=C03,C01 tier=thorough kind=bounded bound="capacity=2 (storage length 2, free-stack length 2; all contents, links, versions symbolic under the invariant)" units=outstation::database::details::event::list::VecList::iter,outstation::database::details::event::list::ListIterator::next,outstation::database::details::event::list::VecList::find_first,outstation::database::details::event::list::VecList::len,outstation::database::details::event::list::VecList::is_full timeout=200 note="iteration yields exactly the live elements oldest first with their handles; find_first returns the oldest match; nothing changes"
+    // @harness ids=C03,C01 tier=thorough kind=bounded bound="capacity=2 (storage length 2, free-stack length 2; all contents, links, versions symbolic under the invariant)" units=outstation::database::details::event::list::VecList::iter,outstation::database::details::event::list::ListIterator::next,outstation::database::details::event::list::VecList::find_first,outstation::database::details::event::list::VecList::len,outstation::database::details::event::list::VecList::is_full timeout=250 note="iteration yields exactly the live elements oldest first with their handles; find_first returns the oldest match; nothing changes"
     list_harness!(vk_c03_list_iter_c2_l2_f2, iter_contract, 2, 2, 2);
-    // @harness ids=C03,C01 tier=thorough kind=bounded bound="capacity=4 (storage length 0, free-stack length 0; all contents, links, versions symbolic under the invariant)" units=outstation::database::details::event::list::VecList::add timeout=200 note="add appends at the tail under a fresh handle, earlier elements keep order/handle/data; a full list refuses and is unchanged; invariant restored"
+    // @harness ids=C03,C01 tier=thorough kind=bounded bound="capacity=2 (storage length 2, free-stack length 2, predicate answers = bits of 0; all contents, links, versions symbolic under the invariant)" units=outstation::database::details::event::list::VecList::remove_all timeout=250 note="the predicate is asked once per element oldest first; exactly the elements it accepts are removed, survivors keep order/handle/data; returns the number removed; invariant restored (all 2^size answer patterns enumerated)"
+    list_harness!(vk_c03_list_remove_all_c2_l2_f2_m0, remove_all_contract, 2, 2, 2, 0);
+    // @harness ids=C03,C01 tier=thorough kind=bounded bound="capacity=4 (storage length 0, free-stack length 0; all contents, links, versions symbolic under the invariant)" units=outstation::database::details::event::list::VecList::add timeout=250 note="add appends at the tail under a fresh handle, earlier elements keep order/handle/data; a full list refuses and is unchanged; invariant restored"
     list_harness!(vk_c03_list_add_c4_l0_f0, add_contract, 4, 0, 0);
-    // @harness ids=C03,C01 tier=thorough kind=bounded bound="capacity=4 (storage length 0, free-stack length 0; all contents, links, versions symbolic under the invariant)" units=outstation::database::details::event::list::VecList::remove_at timeout=200 note="for every handle value: removes exactly the addressed element iff the slot is live and the version matches, order of the others unchanged, else nothing changes; invariant restored"
+    // @harness ids=C03,C01 tier=thorough kind=bounded bound="capacity=4 (storage length 0, free-stack length 0; all contents, links, versions symbolic under the invariant)" units=outstation::database::details::event::list::VecList::remove_at timeout=250 note="for every handle value: removes exactly the addressed element iff the slot is live and the version matches, order of the others unchanged, else nothing changes; invariant restored"
     list_harness!(vk_c03_list_remove_at_c4_l0_f0, remove_at_contract, 4, 0, 0);
-    // @harness ids=C03,C01 tier=thorough kind=bounded bound="capacity=4 (storage length 0, free-stack length 0; all contents, links, versions symbolic under the invariant)" units=outstation::database::details::event::list::VecList::remove_first,outstation::database::details::event::list::VecList::find_first timeout=200 note="for every predicate (symbolic truth table): removes exactly the oldest matching element and returns its data, None and unchanged iff none matches; invariant restored"
+    // @harness ids=C03,C01 tier=thorough kind=bounded bound="capacity=4 (storage length 0, free-stack length 0; all contents, links, versions symbolic under the invariant)" units=outstation::database::details::event::list::VecList::remove_first,outstation::database::details::event::list::VecList::find_first timeout=250 note="for every predicate (symbolic truth table): removes exactly the oldest matching element and returns its data, None and unchanged iff none matches; invariant restored"
     list_harness!(vk_c03_list_remove_first_c4_l0_f0, remove_first_contract, 4, 0, 0);
-    // @harness ids=C03,C01 tier=thorough kind=bounded bound="capacity=4 (storage length 0, free-stack length 0; all contents, links, versions symbolic under the invariant)" units=outstation::database::details::event::list::VecList::remove_all timeout=200 note="for every predicate: asks it once per element oldest first, removes exactly the matching ones, survivors keep order/handle/data, returns the number removed; invariant restored"
-    list_harness!(vk_c03_list_remove_all_c4_l0_f0, remove_all_contract, 4, 0, 0);
-    // @harness ids=C03,C01 tier=thorough kind=bounded bound="capacity=4 (storage length 0, free-stack length 0; all contents, links, versions symbolic under the invariant)" units=outstation::database::details::event::list::VecList::iter,outstation::database::details::event::list::ListIterator::next,outstation::database::details::event::list::VecList::find_first,outstation::database::details::event::list::VecList::len,outstation::database::details::event::list::VecList::is_full timeout=200 note="iteration yields exactly the live elements oldest first with their handles; find_first returns the oldest match; nothing changes"
+    // @harness ids=C03,C01 tier=thorough kind=bounded bound="capacity=4 (storage length 0, free-stack length 0; all contents, links, versions symbolic under the invariant)" units=outstation::database::details::event::list::VecList::iter,outstation::database::details::event::list::ListIterator::next,outstation::database::details::event::list::VecList::find_first,outstation::database::details::event::list::VecList::len,outstation::database::details::event::list::VecList::is_full timeout=250 note="iteration yields exactly the live elements oldest first with their handles; find_first returns the oldest match; nothing changes"
     list_harness!(vk_c03_list_iter_c4_l0_f0, iter_contract, 4, 0, 0);
-    // @harness ids=C03,C01 tier=thorough kind=bounded bound="capacity=4 (storage length 1, free-stack length 0; all contents, links, versions symbolic under the invariant)" units=outstation::database::details::event::list::VecList::add timeout=200 note="add appends at the tail under a fresh handle, earlier elements keep order/handle/data; a full list refuses and is unchanged; invariant restored"
+    // @harness ids=C03,C01 tier=thorough kind=bounded bound="capacity=4 (storage length 1, free-stack length 0; all contents, links, versions symbolic under the invariant)" units=outstation::database::details::event::list::VecList::add timeout=250 note="add appends at the tail under a fresh handle, earlier elements keep order/handle/data; a full list refuses and is unchanged; invariant restored"
     list_harness!(vk_c03_list_add_c4_l1_f0, add_contract, 4, 1, 0);
-    // @harness ids=C03,C01 tier=thorough kind=bounded bound="capacity=4 (storage length 1, free-stack length 0; all contents, links, versions symbolic under the invariant)" units=outstation::database::details::event::list::VecList::remove_at timeout=200 note="for every handle value: removes exactly the addressed element iff the slot is live and the version matches, order of the others unchanged, else nothing changes; invariant restored"
+    // @harness ids=C03,C01 tier=thorough kind=bounded bound="capacity=4 (storage length 1, free-stack length 0; all contents, links, versions symbolic under the invariant)" units=outstation::database::details::event::list::VecList::remove_at timeout=250 note="for every handle value: removes exactly the addressed element iff the slot is live and the version matches, order of the others unchanged, else nothing changes; invariant restored"
     list_harness!(vk_c03_list_remove_at_c4_l1_f0, remove_at_contract, 4, 1, 0);
-    // @harness ids=C03,C01 tier=thorough kind=bounded bound="capacity=4 (storage length 1, free-stack length 0; all contents, links, versions symbolic under the invariant)" units=outstation::database::details::event::list::VecList::remove_first,outstation::database::details::event::list::VecList::find_first timeout=200 note="for every predicate (symbolic truth table): removes exactly the oldest matching element and returns its data, None and unchanged iff none matches; invariant restored"
+    // @harness ids=C03,C01 tier=thorough kind=bounded bound="capacity=4 (storage length 1, free-stack length 0; all contents, links, versions symbolic under the invariant)" units=outstation::database::details::event::list::VecList::remove_first,outstation::database::details::event::list::VecList::find_first timeout=250 note="for every predicate (symbolic truth table): removes exactly the oldest matching element and returns its data, None and unchanged iff none matches; invariant restored"
     list_harness!(vk_c03_list_remove_first_c4_l1_f0, remove_first_contract, 4, 1, 0);
-    // @harness ids=C03,C01 tier=thorough kind=bounded bound="capacity=4 (storage length 1, free-stack length 0; all contents, links, versions symbolic under the invariant)" units=outstation::database::details::event::list::VecList::remove_all timeout=200 note="for every predicate: asks it once per element oldest first, removes exactly the matching ones, survivors keep order/handle/data, returns the number removed; invariant restored"
-    list_harness!(vk_c03_list_remove_all_c4_l1_f0, remove_all_contract, 4, 1, 0);
-    // @harness ids=C03,C01 tier=thorough kind=bounded bound="capacity=4 (storage length 1, free-stack length 0; all contents, links, versions symbolic under the invariant)" units=outstation::database::details::event::list::VecList::iter,outstation::database::details::event::list::ListIterator::next,outstation::database::details::event::list::VecList::find_first,outstation::database::details::event::list::VecList::len,outstation::database::details::event::list::VecList::is_full timeout=200 note="iteration yields exactly the live elements oldest first with their handles; find_first returns the oldest match; nothing changes"
+    // @harness ids=C03,C01 tier=thorough kind=bounded bound="capacity=4 (storage length 1, free-stack length 0; all contents, links, versions symbolic under the invariant)" units=outstation::database::details::event::list::VecList::iter,outstation::database::details::event::list::ListIterator::next,outstation::database::details::event::list::VecList::find_first,outstation::database::details::event::list::VecList::len,outstation::database::details::event::list::VecList::is_full timeout=250 note="iteration yields exactly the live elements oldest first with their handles; find_first returns the oldest match; nothing changes"
     list_harness!(vk_c03_list_iter_c4_l1_f0, iter_contract, 4, 1, 0);
-    // @harness ids=C03,C01 tier=thorough kind=bounded bound="capacity=4 (storage length 1, free-stack length 1; all contents, links, versions symbolic under the invariant)" units=outstation::database::details::event::list::VecList::add timeout=200 note="add appends at the tail under a fresh handle, earlier elements keep order/handle/data; a full list refuses and is unchanged; invariant restored"
+    // @harness ids=C03,C01 tier=thorough kind=bounded bound="capacity=4 (storage length 1, free-stack length 1; all contents, links, versions symbolic under the invariant)" units=outstation::database::details::event::list::VecList::add timeout=250 note="add appends at the tail under a fresh handle, earlier elements keep order/handle/data; a full list refuses and is unchanged; invariant restored"
     list_harness!(vk_c03_list_add_c4_l1_f1, add_contract, 4, 1, 1);
-    // @harness ids=C03,C01 tier=thorough kind=bounded bound="capacity=4 (storage length 1, free-stack length 1; all contents, links, versions symbolic under the invariant)" units=outstation::database::details::event::list::VecList::remove_at timeout=200 note="for every handle value: removes exactly the addressed element iff the slot is live and the version matches, order of the others unchanged, else nothing changes; invariant restored"
+    // @harness ids=C03,C01 tier=thorough kind=bounded bound="capacity=4 (storage length 1, free-stack length 1; all contents, links, versions symbolic under the invariant)" units=outstation::database::details::event::list::VecList::remove_at timeout=250 note="for every handle value: removes exactly the addressed element iff the slot is live and the version matches, order of the others unchanged, else nothing changes; invariant restored"
     list_harness!(vk_c03_list_remove_at_c4_l1_f1, remove_at_contract, 4, 1, 1);
-    // @harness ids=C03,C01 tier=thorough kind=bounded bound="capacity=4 (storage length 1, free-stack length 1; all contents, links, versions symbolic under the invariant)" units=outstation::database::details::event::list::VecList::remove_first,outstation::database::details::event::list::VecList::find_first timeout=200 note="for every predicate (symbolic truth table): removes exactly the oldest matching element and returns its data, None and unchanged iff none matches; invariant restored"
+    // @harness ids=C03,C01 tier=thorough kind=bounded bound="capacity=4 (storage length 1, free-stack length 1; all contents, links, versions symbolic under the invariant)" units=outstation::database::details::event::list::VecList::remove_first,outstation::database::details::event::list::VecList::find_first timeout=250 note="for every predicate (symbolic truth table): removes exactly the oldest matching element and returns its data, None and unchanged iff none matches; invariant restored"
     list_harness!(vk_c03_list_remove_first_c4_l1_f1, remove_first_contract, 4, 1, 1);
-    // @harness ids=C03,C01 tier=thorough kind=bounded bound="capacity=4 (storage length 1, free-stack length 1; all contents, links, versions symbolic under the invariant)" units=outstation::database::details::event::list::VecList::remove_all timeout=200 note="for every predicate: asks it once per element oldest first, removes exactly the matching ones, survivors keep order/handle/data, returns the number removed; invariant restored"
-    list_harness!(vk_c03_list_remove_all_c4_l1_f1, remove_all_contract, 4, 1, 1);
-    // @harness ids=C03,C01 tier=thorough kind=bounded bound="capacity=4 (storage length 1, free-stack length 1; all contents, links, versions symbolic under the invariant)" units=outstation::database::details::event::list::VecList::iter,outstation::database::details::event::list::ListIterator::next,outstation::database::details::event::list::VecList::find_first,outstation::database::details::event::list::VecList::len,outstation::database::details::event::list::VecList::is_full timeout=200 note="iteration yields exactly the live elements oldest first with their handles; find_first returns the oldest match; nothing changes"
+    // @harness ids=C03,C01 tier=thorough kind=bounded bound="capacity=4 (storage length 1, free-stack length 1; all contents, links, versions symbolic under the invariant)" units=outstation::database::details::event::list::VecList::iter,outstation::database::details::event::list::ListIterator::next,outstation::database::details::event::list::VecList::find_first,outstation::database::details::event::list::VecList::len,outstation::database::details::event::list::VecList::is_full timeout=250 note="iteration yields exactly the live elements oldest first with their handles; find_first returns the oldest match; nothing changes"
     list_harness!(vk_c03_list_iter_c4_l1_f1, iter_contract, 4, 1, 1);
-    // @harness ids=C03,C01 tier=thorough kind=bounded bound="capacity=4 (storage length 2, free-stack length 0; all contents, links, versions symbolic under the invariant)" units=outstation::database::details::event::list::VecList::add timeout=200 note="add appends at the tail under a fresh handle, earlier elements keep order/handle/data; a full list refuses and is unchanged; invariant restored"
+    // @harness ids=C03,C01 tier=thorough kind=bounded bound="capacity=4 (storage length 2, free-stack length 0; all contents, links, versions symbolic under the invariant)" units=outstation::database::details::event::list::VecList::add timeout=250 note="add appends at the tail under a fresh handle, earlier elements keep order/handle/data; a full list refuses and is unchanged; invariant restored"
     list_harness!(vk_c03_list_add_c4_l2_f0, add_contract, 4, 2, 0);
-    // @harness ids=C03,C01 tier=thorough kind=bounded bound="capacity=4 (storage length 2, free-stack length 0; all contents, links, versions symbolic under the invariant)" units=outstation::database::details::event::list::VecList::remove_at timeout=200 note="for every handle value: removes exactly the addressed element iff the slot is live and the version matches, order of the others unchanged, else nothing changes; invariant restored"
+    // @harness ids=C03,C01 tier=thorough kind=bounded bound="capacity=4 (storage length 2, free-stack length 0; all contents, links, versions symbolic under the invariant)" units=outstation::database::details::event::list::VecList::remove_at timeout=250 note="for every handle value: removes exactly the addressed element iff the slot is live and the version matches, order of the others unchanged, else nothing changes; invariant restored"
     list_harness!(vk_c03_list_remove_at_c4_l2_f0, remove_at_contract, 4, 2, 0);
-    // @harness ids=C03,C01 tier=thorough kind=bounded bound="capacity=4 (storage length 2, free-stack length 0; all contents, links, versions symbolic under the invariant)" units=outstation::database::details::event::list::VecList::remove_first,outstation::database::details::event::list::VecList::find_first timeout=200 note="for every predicate (symbolic truth table): removes exactly the oldest matching element and returns its data, None and unchanged iff none matches; invariant restored"
+    // @harness ids=C03,C01 tier=thorough kind=bounded bound="capacity=4 (storage length 2, free-stack length 0; all contents, links, versions symbolic under the invariant)" units=outstation::database::details::event::list::VecList::remove_first,outstation::database::details::event::list::VecList::find_first timeout=250 note="for every predicate (symbolic truth table): removes exactly the oldest matching element and returns its data, None and unchanged iff none matches; invariant restored"
     list_harness!(vk_c03_list_remove_first_c4_l2_f0, remove_first_contract, 4, 2, 0);
-    // @harness ids=C03,C01 tier=thorough kind=bounded bound="capacity=4 (storage length 2, free-stack length 0; all contents, links, versions symbolic under the invariant)" units=outstation::database::details::event::list::VecList::remove_all timeout=200 note="for every predicate: asks it once per element oldest first, removes exactly the matching ones, survivors keep order/handle/data, returns the number removed; invariant restored"
-    list_harness!(vk_c03_list_remove_all_c4_l2_f0, remove_all_contract, 4, 2, 0);
-    // @harness ids=C03,C01 tier=thorough kind=bounded bound="capacity=4 (storage length 2, free-stack length 0; all contents, links, versions symbolic under the invariant)" units=outstation::database::details::event::list::VecList::iter,outstation::database::details::event::list::ListIterator::next,outstation::database::details::event::list::VecList::find_first,outstation::database::details::event::list::VecList::len,outstation::database::details::event::list::VecList::is_full timeout=200 note="iteration yields exactly the live elements oldest first with their handles; find_first returns the oldest match; nothing changes"
+    // @harness ids=C03,C01 tier=thorough kind=bounded bound="capacity=4 (storage length 2, free-stack length 0; all contents, links, versions symbolic under the invariant)" units=outstation::database::details::event::list::VecList::iter,outstation::database::details::event::list::ListIterator::next,outstation::database::details::event::list::VecList::find_first,outstation::database::details::event::list::VecList::len,outstation::database::details::event::list::VecList::is_full timeout=250 note="iteration yields exactly the live elements oldest first with their handles; find_first returns the oldest match; nothing changes"
     list_harness!(vk_c03_list_iter_c4_l2_f0, iter_contract, 4, 2, 0);
-    // @harness ids=C03,C01 tier=thorough kind=bounded bound="capacity=4 (storage length 2, free-stack length 1; all contents, links, versions symbolic under the invariant)" units=outstation::database::details::event::list::VecList::add timeout=200 note="add appends at the tail under a fresh handle, earlier elements keep order/handle/data; a full list refuses and is unchanged; invariant restored"
+    // @harness ids=C03,C01 tier=thorough kind=bounded bound="capacity=4 (storage length 2, free-stack length 1; all contents, links, versions symbolic under the invariant)" units=outstation::database::details::event::list::VecList::add timeout=250 note="add appends at the tail under a fresh handle, earlier elements keep order/handle/data; a full list refuses and is unchanged; invariant restored"
     list_harness!(vk_c03_list_add_c4_l2_f1, add_contract, 4, 2, 1);
-    // @harness ids=C03,C01 tier=thorough kind=bounded bound="capacity=4 (storage length 2, free-stack length 1; all contents, links, versions symbolic under the invariant)" units=outstation::database::details::event::list::VecList::remove_at timeout=200 note="for every handle value: removes exactly the addressed element iff the slot is live and the version matches, order of the others unchanged, else nothing changes; invariant restored"
+    // @harness ids=C03,C01 tier=thorough kind=bounded bound="capacity=4 (storage length 2, free-stack length 1; all contents, links, versions symbolic under the invariant)" units=outstation::database::details::event::list::VecList::remove_at timeout=250 note="for every handle value: removes exactly the addressed element iff the slot is live and the version matches, order of the others unchanged, else nothing changes; invariant restored"
     list_harness!(vk_c03_list_remove_at_c4_l2_f1, remove_at_contract, 4, 2, 1);
-    // @harness ids=C03,C01 tier=thorough kind=bounded bound="capacity=4 (storage length 2, free-stack length 1; all contents, links, versions symbolic under the invariant)" units=outstation::database::details::event::list::VecList::remove_first,outstation::database::details::event::list::VecList::find_first timeout=200 note="for every predicate (symbolic truth table): removes exactly the oldest matching element and returns its data, None and unchanged iff none matches; invariant restored"
+    // @harness ids=C03,C01 tier=thorough kind=bounded bound="capacity=4 (storage length 2, free-stack length 1; all contents, links, versions symbolic under the invariant)" units=outstation::database::details::event::list::VecList::remove_first,outstation::database::details::event::list::VecList::find_first timeout=250 note="for every predicate (symbolic truth table): removes exactly the oldest matching element and returns its data, None and unchanged iff none matches; invariant restored"
     list_harness!(vk_c03_list_remove_first_c4_l2_f1, remove_first_contract, 4, 2, 1);
-    // @harness ids=C03,C01 tier=thorough kind=bounded bound="capacity=4 (storage length 2, free-stack length 1; all contents, links, versions symbolic under the invariant)" units=outstation::database::details::event::list::VecList::remove_all timeout=200 note="for every predicate: asks it once per element oldest first, removes exactly the matching ones, survivors keep order/handle/data, returns the number removed; invariant restored"
-    list_harness!(vk_c03_list_remove_all_c4_l2_f1, remove_all_contract, 4, 2, 1);
-    // @harness ids=C03,C01 tier=thorough kind=bounded bound="capacity=4 (storage length 2, free-stack length 1; all contents, links, versions symbolic under the invariant)" units=outstation::database::details::event::list::VecList::iter,outstation::database::details::event::list::ListIterator::next,outstation::database::details::event::list::VecList::find_first,outstation::database::details::event::list::VecList::len,outstation::database::details::event::list::VecList::is_full timeout=200 note="iteration yields exactly the live elements oldest first with their handles; find_first returns the oldest match; nothing changes"
+    // @harness ids=C03,C01 tier=thorough kind=bounded bound="capacity=4 (storage length 2, free-stack length 1; all contents, links, versions symbolic under the invariant)" units=outstation::database::details::event::list::VecList::iter,outstation::database::details::event::list::ListIterator::next,outstation::database::details::event::list::VecList::find_first,outstation::database::details::event::list::VecList::len,outstation::database::details::event::list::VecList::is_full timeout=250 note="iteration yields exactly the live elements oldest first with their handles; find_first returns the oldest match; nothing changes"
     list_harness!(vk_c03_list_iter_c4_l2_f1, iter_contract, 4, 2, 1);
-    // @harness ids=C03,C01 tier=thorough kind=bounded bound="capacity=4 (storage length 2, free-stack length 2; all contents, links, versions symbolic under the invariant)" units=outstation::database::details::event::list::VecList::add timeout=200 note="add appends at the tail under a fresh handle, earlier elements keep order/handle/data; a full list refuses and is unchanged; invariant restored"
+    // @harness ids=C03,C01 tier=thorough kind=bounded bound="capacity=4 (storage length 2, free-stack length 2; all contents, links, versions symbolic under the invariant)" units=outstation::database::details::event::list::VecList::add timeout=250 note="add appends at the tail under a fresh handle, earlier elements keep order/handle/data; a full list refuses and is unchanged; invariant restored"
     list_harness!(vk_c03_list_add_c4_l2_f2, add_contract, 4, 2, 2);
-    // @harness ids=C03,C01 tier=thorough kind=bounded bound="capacity=4 (storage length 2, free-stack length 2; all contents, links, versions symbolic under the invariant)" units=outstation::database::details::event::list::VecList::remove_at timeout=200 note="for every handle value: removes exactly the addressed element iff the slot is live and the version matches, order of the others unchanged, else nothing changes; invariant restored"
+    // @harness ids=C03,C01 tier=thorough kind=bounded bound="capacity=4 (storage length 2, free-stack length 2; all contents, links, versions symbolic under the invariant)" units=outstation::database::details::event::list::VecList::remove_at timeout=250 note="for every handle value: removes exactly the addressed element iff the slot is live and the version matches, order of the others unchanged, else nothing changes; invariant restored"
     list_harness!(vk_c03_list_remove_at_c4_l2_f2, remove_at_contract, 4, 2, 2);
-    // @harness ids=C03,C01 tier=thorough kind=bounded bound="capacity=4 (storage length 2, free-stack length 2; all contents, links, versions symbolic under the invariant)" units=outstation::database::details::event::list::VecList::remove_first,outstation::database::details::event::list::VecList::find_first timeout=200 note="for every predicate (symbolic truth table): removes exactly the oldest matching element and returns its data, None and unchanged iff none matches; invariant restored"
+    // @harness ids=C03,C01 tier=thorough kind=bounded bound="capacity=4 (storage length 2, free-stack length 2; all contents, links, versions symbolic under the invariant)" units=outstation::database::details::event::list::VecList::remove_first,outstation::database::details::event::list::VecList::find_first timeout=250 note="for every predicate (symbolic truth table): removes exactly the oldest matching element and returns its data, None and unchanged iff none matches; invariant restored"
     list_harness!(vk_c03_list_remove_first_c4_l2_f2, remove_first_contract, 4, 2, 2);
-    // @harness ids=C03,C01 tier=thorough kind=bounded bound="capacity=4 (storage length 2, free-stack length 2; all contents, links, versions symbolic under the invariant)" units=outstation::database::details::event::list::VecList::remove_all timeout=200 note="for every predicate: asks it once per element oldest first, removes exactly the matching ones, survivors keep order/handle/data, returns the number removed; invariant restored"
-    list_harness!(vk_c03_list_remove_all_c4_l2_f2, remove_all_contract, 4, 2, 2);
-    // @harness ids=C03,C01 tier=thorough kind=bounded bound="capacity=4 (storage length 2, free-stack length 2; all contents, links, versions symbolic under the invariant)" units=outstation::database::details::event::list::VecList::iter,outstation::database::details::event::list::ListIterator::next,outstation::database::details::event::list::VecList::find_first,outstation::database::details::event::list::VecList::len,outstation::database::details::event::list::VecList::is_full timeout=200 note="iteration yields exactly the live elements oldest first with their handles; find_first returns the oldest match; nothing changes"
+    // @harness ids=C03,C01 tier=thorough kind=bounded bound="capacity=4 (storage length 2, free-stack length 2; all contents, links, versions symbolic under the invariant)" units=outstation::database::details::event::list::VecList::iter,outstation::database::details::event::list::ListIterator::next,outstation::database::details::event::list::VecList::find_first,outstation::database::details::event::list::VecList::len,outstation::database::details::event::list::VecList::is_full timeout=250 note="iteration yields exactly the live elements oldest first with their handles; find_first returns the oldest match; nothing changes"
     list_harness!(vk_c03_list_iter_c4_l2_f2, iter_contract, 4, 2, 2);
-    // @harness ids=C03,C01 tier=thorough kind=bounded bound="capacity=4 (storage length 3, free-stack length 0; all contents, links, versions symbolic under the invariant)" units=outstation::database::details::event::list::VecList::add timeout=200 note="add appends at the tail under a fresh handle, earlier elements keep order/handle/data; a full list refuses and is unchanged; invariant restored"
+    // @harness ids=C03,C01 tier=thorough kind=bounded bound="capacity=4 (storage length 3, free-stack length 0; all contents, links, versions symbolic under the invariant)" units=outstation::database::details::event::list::VecList::add timeout=250 note="add appends at the tail under a fresh handle, earlier elements keep order/handle/data; a full list refuses and is unchanged; invariant restored"
     list_harness!(vk_c03_list_add_c4_l3_f0, add_contract, 4, 3, 0);
-    // @harness ids=C03,C01 tier=thorough kind=bounded bound="capacity=4 (storage length 3, free-stack length 0; all contents, links, versions symbolic under the invariant)" units=outstation::database::details::event::list::VecList::remove_at timeout=200 note="for every handle value: removes exactly the addressed element iff the slot is live and the version matches, order of the others unchanged, else nothing changes; invariant restored"
+    // @harness ids=C03,C01 tier=thorough kind=bounded bound="capacity=4 (storage length 3, free-stack length 0; all contents, links, versions symbolic under the invariant)" units=outstation::database::details::event::list::VecList::remove_at timeout=250 note="for every handle value: removes exactly the addressed element iff the slot is live and the version matches, order of the others unchanged, else nothing changes; invariant restored"
     list_harness!(vk_c03_list_remove_at_c4_l3_f0, remove_at_contract, 4, 3, 0);
-    // @harness ids=C03,C01 tier=thorough kind=bounded bound="capacity=4 (storage length 3, free-stack length 0; all contents, links, versions symbolic under the invariant)" units=outstation::database::details::event::list::VecList::remove_first,outstation::database::details::event::list::VecList::find_first timeout=200 note="for every predicate (symbolic truth table): removes exactly the oldest matching element and returns its data, None and unchanged iff none matches; invariant restored"
+    // @harness ids=C03,C01 tier=thorough kind=bounded bound="capacity=4 (storage length 3, free-stack length 0; all contents, links, versions symbolic under the invariant)" units=outstation::database::details::event::list::VecList::remove_first,outstation::database::details::event::list::VecList::find_first timeout=250 note="for every predicate (symbolic truth table): removes exactly the oldest matching element and returns its data, None and unchanged iff none matches; invariant restored"
     list_harness!(vk_c03_list_remove_first_c4_l3_f0, remove_first_contract, 4, 3, 0);
-    // @harness ids=C03,C01 tier=thorough kind=bounded bound="capacity=4 (storage length 3, free-stack length 0; all contents, links, versions symbolic under the invariant)" units=outstation::database::details::event::list::VecList::remove_all timeout=200 note="for every predicate: asks it once per element oldest first, removes exactly the matching ones, survivors keep order/handle/data, returns the number removed; invariant restored"
-    list_harness!(vk_c03_list_remove_all_c4_l3_f0, remove_all_contract, 4, 3, 0);
-    // @harness ids=C03,C01 tier=thorough kind=bounded bound="capacity=4 (storage length 3, free-stack length 0; all contents, links, versions symbolic under the invariant)" units=outstation::database::details::event::list::VecList::iter,outstation::database::details::event::list::ListIterator::next,outstation::database::details::event::list::VecList::find_first,outstation::database::details::event::list::VecList::len,outstation::database::details::event::list::VecList::is_full timeout=200 note="iteration yields exactly the live elements oldest first with their handles; find_first returns the oldest match; nothing changes"
+    // @harness ids=C03,C01 tier=thorough kind=bounded bound="capacity=4 (storage length 3, free-stack length 0; all contents, links, versions symbolic under the invariant)" units=outstation::database::details::event::list::VecList::iter,outstation::database::details::event::list::ListIterator::next,outstation::database::details::event::list::VecList::find_first,outstation::database::details::event::list::VecList::len,outstation::database::details::event::list::VecList::is_full timeout=250 note="iteration yields exactly the live elements oldest first with their handles; find_first returns the oldest match; nothing changes"
     list_harness!(vk_c03_list_iter_c4_l3_f0, iter_contract, 4, 3, 0);
-    // @harness ids=C03,C01 tier=thorough kind=bounded bound="capacity=4 (storage length 3, free-stack length 1; all contents, links, versions symbolic under the invariant)" units=outstation::database::details::event::list::VecList::add timeout=200 note="add appends at the tail under a fresh handle, earlier elements keep order/handle/data; a full list refuses and is unchanged; invariant restored"
+    // @harness ids=C03,C01 tier=thorough kind=bounded bound="capacity=4 (storage length 3, free-stack length 1; all contents, links, versions symbolic under the invariant)" units=outstation::database::details::event::list::VecList::add timeout=250 note="add appends at the tail under a fresh handle, earlier elements keep order/handle/data; a full list refuses and is unchanged; invariant restored"
     list_harness!(vk_c03_list_add_c4_l3_f1, add_contract, 4, 3, 1);
-    // @harness ids=C03,C01 tier=thorough kind=bounded bound="capacity=4 (storage length 3, free-stack length 1; all contents, links, versions symbolic under the invariant)" units=outstation::database::details::event::list::VecList::remove_at timeout=200 note="for every handle value: removes exactly the addressed element iff the slot is live and the version matches, order of the others unchanged, else nothing changes; invariant restored"
+    // @harness ids=C03,C01 tier=thorough kind=bounded bound="capacity=4 (storage length 3, free-stack length 1; all contents, links, versions symbolic under the invariant)" units=outstation::database::details::event::list::VecList::remove_at timeout=250 note="for every handle value: removes exactly the addressed element iff the slot is live and the version matches, order of the others unchanged, else nothing changes; invariant restored"
     list_harness!(vk_c03_list_remove_at_c4_l3_f1, remove_at_contract, 4, 3, 1);
-    // @harness ids=C03,C01 tier=thorough kind=bounded bound="capacity=4 (storage length 3, free-stack length 1; all contents, links, versions symbolic under the invariant)" units=outstation::database::details::event::list::VecList::remove_first,outstation::database::details::event::list::VecList::find_first timeout=200 note="for every predicate (symbolic truth table): removes exactly the oldest matching element and returns its data, None and unchanged iff none matches; invariant restored"
+    // @harness ids=C03,C01 tier=thorough kind=bounded bound="capacity=4 (storage length 3, free-stack length 1; all contents, links, versions symbolic under the invariant)" units=outstation::database::details::event::list::VecList::remove_first,outstation::database::details::event::list::VecList::find_first timeout=250 note="for every predicate (symbolic truth table): removes exactly the oldest matching element and returns its data, None and unchanged iff none matches; invariant restored"
     list_harness!(vk_c03_list_remove_first_c4_l3_f1, remove_first_contract, 4, 3, 1);
-    // @harness ids=C03,C01 tier=thorough kind=bounded bound="capacity=4 (storage length 3, free-stack length 1; all contents, links, versions symbolic under the invariant)" units=outstation::database::details::event::list::VecList::remove_all timeout=200 note="for every predicate: asks it once per element oldest first, removes exactly the matching ones, survivors keep order/handle/data, returns the number removed; invariant restored"
-    list_harness!(vk_c03_list_remove_all_c4_l3_f1, remove_all_contract, 4, 3, 1);
-    // @harness ids=C03,C01 tier=thorough kind=bounded bound="capacity=4 (storage length 3, free-stack length 1; all contents, links, versions symbolic under the invariant)" units=outstation::database::details::event::list::VecList::iter,outstation::database::details::event::list::ListIterator::next,outstation::database::details::event::list::VecList::find_first,outstation::database::details::event::list::VecList::len,outstation::database::details::event::list::VecList::is_full timeout=200 note="iteration yields exactly the live elements oldest first with their handles; find_first returns the oldest match; nothing changes"
+    // @harness ids=C03,C01 tier=thorough kind=bounded bound="capacity=4 (storage length 3, free-stack length 1; all contents, links, versions symbolic under the invariant)" units=outstation::database::details::event::list::VecList::iter,outstation::database::details::event::list::ListIterator::next,outstation::database::details::event::list::VecList::find_first,outstation::database::details::event::list::VecList::len,outstation::database::details::event::list::VecList::is_full timeout=250 note="iteration yields exactly the live elements oldest first with their handles; find_first returns the oldest match; nothing changes"
     list_harness!(vk_c03_list_iter_c4_l3_f1, iter_contract, 4, 3, 1);
-    // @harness ids=C03,C01 tier=thorough kind=bounded bound="capacity=4 (storage length 3, free-stack length 2; all contents, links, versions symbolic under the invariant)" units=outstation::database::details::event::list::VecList::add timeout=200 note="add appends at the tail under a fresh handle, earlier elements keep order/handle/data; a full list refuses and is unchanged; invariant restored"
+    // @harness ids=C03,C01 tier=thorough kind=bounded bound="capacity=4 (storage length 3, free-stack length 2; all contents, links, versions symbolic under the invariant)" units=outstation::database::details::event::list::VecList::add timeout=250 note="add appends at the tail under a fresh handle, earlier elements keep order/handle/data; a full list refuses and is unchanged; invariant restored"
     list_harness!(vk_c03_list_add_c4_l3_f2, add_contract, 4, 3, 2);
-    // @harness ids=C03,C01 tier=thorough kind=bounded bound="capacity=4 (storage length 3, free-stack length 2; all contents, links, versions symbolic under the invariant)" units=outstation::database::details::event::list::VecList::remove_at timeout=200 note="for every handle value: removes exactly the addressed element iff the slot is live and the version matches, order of the others unchanged, else nothing changes; invariant restored"
+    // @harness ids=C03,C01 tier=thorough kind=bounded bound="capacity=4 (storage length 3, free-stack length 2; all contents, links, versions symbolic under the invariant)" units=outstation::database::details::event::list::VecList::remove_at timeout=250 note="for every handle value: removes exactly the addressed element iff the slot is live and the version matches, order of the others unchanged, else nothing changes; invariant restored"
     list_harness!(vk_c03_list_remove_at_c4_l3_f2, remove_at_contract, 4, 3, 2);
-    // @harness ids=C03,C01 tier=thorough kind=bounded bound="capacity=4 (storage length 3, free-stack length 2; all contents, links, versions symbolic under the invariant)" units=outstation::database::details::event::list::VecList::remove_first,outstation::database::details::event::list::VecList::find_first timeout=200 note="for every predicate (symbolic truth table): removes exactly the oldest matching element and returns its data, None and unchanged iff none matches; invariant restored"
+    // @harness ids=C03,C01 tier=thorough kind=bounded bound="capacity=4 (storage length 3, free-stack length 2; all contents, links, versions symbolic under the invariant)" units=outstation::database::details::event::list::VecList::remove_first,outstation::database::details::event::list::VecList::find_first timeout=250 note="for every predicate (symbolic truth table): removes exactly the oldest matching element and returns its data, None and unchanged iff none matches; invariant restored"
     list_harness!(vk_c03_list_remove_first_c4_l3_f2, remove_first_contract, 4, 3, 2);
-    // @harness ids=C03,C01 tier=thorough kind=bounded bound="capacity=4 (storage length 3, free-stack length 2; all contents, links, versions symbolic under the invariant)" units=outstation::database::details::event::list::VecList::remove_all timeout=200 note="for every predicate: asks it once per element oldest first, removes exactly the matching ones, survivors keep order/handle/data, returns the number removed; invariant restored"
-    list_harness!(vk_c03_list_remove_all_c4_l3_f2, remove_all_contract, 4, 3, 2);
-    // @harness ids=C03,C01 tier=thorough kind=bounded bound="capacity=4 (storage length 3, free-stack length 2; all contents, links, versions symbolic under the invariant)" units=outstation::database::details::event::list::VecList::iter,outstation::database::details::event::list::ListIterator::next,outstation::database::details::event::list::VecList::find_first,outstation::database::details::event::list::VecList::len,outstation::database::details::event::list::VecList::is_full timeout=200 note="iteration yields exactly the live elements oldest first with their handles; find_first returns the oldest match; nothing changes"
+    // @harness ids=C03,C01 tier=thorough kind=bounded bound="capacity=4 (storage length 3, free-stack length 2; all contents, links, versions symbolic under the invariant)" units=outstation::database::details::event::list::VecList::iter,outstation::database::details::event::list::ListIterator::next,outstation::database::details::event::list::VecList::find_first,outstation::database::details::event::list::VecList::len,outstation::database::details::event::list::VecList::is_full timeout=250 note="iteration yields exactly the live elements oldest first with their handles; find_first returns the oldest match; nothing changes"
     list_harness!(vk_c03_list_iter_c4_l3_f2, iter_contract, 4, 3, 2);
-    // @harness ids=C03,C01 tier=thorough kind=bounded bound="capacity=4 (storage length 3, free-stack length 3; all contents, links, versions symbolic under the invariant)" units=outstation::database::details::event::list::VecList::add timeout=200 note="add appends at the tail under a fresh handle, earlier elements keep order/handle/data; a full list refuses and is unchanged; invariant restored"
+    // @harness ids=C03,C01 tier=thorough kind=bounded bound="capacity=4 (storage length 3, free-stack length 3; all contents, links, versions symbolic under the invariant)" units=outstation::database::details::event::list::VecList::add timeout=250 note="add appends at the tail under a fresh handle, earlier elements keep order/handle/data; a full list refuses and is unchanged; invariant restored"
     list_harness!(vk_c03_list_add_c4_l3_f3, add_contract, 4, 3, 3);
-    // @harness ids=C03,C01 tier=thorough kind=bounded bound="capacity=4 (storage length 3, free-stack length 3; all contents, links, versions symbolic under the invariant)" units=outstation::database::details::event::list::VecList::remove_at timeout=200 note="for every handle value: removes exactly the addressed element iff the slot is live and the version matches, order of the others unchanged, else nothing changes; invariant restored"
+    // @harness ids=C03,C01 tier=thorough kind=bounded bound="capacity=4 (storage length 3, free-stack length 3; all contents, links, versions symbolic under the invariant)" units=outstation::database::details::event::list::VecList::remove_at timeout=250 note="for every handle value: removes exactly the addressed element iff the slot is live and the version matches, order of the others unchanged, else nothing changes; invariant restored"
     list_harness!(vk_c03_list_remove_at_c4_l3_f3, remove_at_contract, 4, 3, 3);
-    // @harness ids=C03,C01 tier=thorough kind=bounded bound="capacity=4 (storage length 3, free-stack length 3; all contents, links, versions symbolic under the invariant)" units=outstation::database::details::event::list::VecList::remove_first,outstation::database::details::event::list::VecList::find_first timeout=200 note="for every predicate (symbolic truth table): removes exactly the oldest matching element and returns its data, None and unchanged iff none matches; invariant restored"
+    // @harness ids=C03,C01 tier=thorough kind=bounded bound="capacity=4 (storage length 3, free-stack length 3; all contents, links, versions symbolic under the invariant)" units=outstation::database::details::event::list::VecList::remove_first,outstation::database::details::event::list::VecList::find_first timeout=250 note="for every predicate (symbolic truth table): removes exactly the oldest matching element and returns its data, None and unchanged iff none matches; invariant restored"
     list_harness!(vk_c03_list_remove_first_c4_l3_f3, remove_first_contract, 4, 3, 3);
-    // @harness ids=C03,C01 tier=thorough kind=bounded bound="capacity=4 (storage length 3, free-stack length 3; all contents, links, versions symbolic under the invariant)" units=outstation::database::details::event::list::VecList::remove_all timeout=200 note="for every predicate: asks it once per element oldest first, removes exactly the matching ones, survivors keep order/handle/data, returns the number removed; invariant restored"
-    list_harness!(vk_c03_list_remove_all_c4_l3_f3, remove_all_contract, 4, 3, 3);
-    // @harness ids=C03,C01 tier=thorough kind=bounded bound="capacity=4 (storage length 3, free-stack length 3; all contents, links, versions symbolic under the invariant)" units=outstation::database::details::event::list::VecList::iter,outstation::database::details::event::list::ListIterator::next,outstation::database::details::event::list::VecList::find_first,outstation::database::details::event::list::VecList::len,outstation::database::details::event::list::VecList::is_full timeout=200 note="iteration yields exactly the live elements oldest first with their handles; find_first returns the oldest match; nothing changes"
+    // @harness ids=C03,C01 tier=thorough kind=bounded bound="capacity=4 (storage length 3, free-stack length 3; all contents, links, versions symbolic under the invariant)" units=outstation::database::details::event::list::VecList::iter,outstation::database::details::event::list::ListIterator::next,outstation::database::details::event::list::VecList::find_first,outstation::database::details::event::list::VecList::len,outstation::database::details::event::list::VecList::is_full timeout=250 note="iteration yields exactly the live elements oldest first with their handles; find_first returns the oldest match; nothing changes"
     list_harness!(vk_c03_list_iter_c4_l3_f3, iter_contract, 4, 3, 3);
-    // @harness ids=C03,C01 tier=thorough kind=bounded bound="capacity=4 (storage length 4, free-stack length 0; all contents, links, versions symbolic under the invariant)" units=outstation::database::details::event::list::VecList::add timeout=200 note="add appends at the tail under a fresh handle, earlier elements keep order/handle/data; a full list refuses and is unchanged; invariant restored"
+    // @harness ids=C03,C01 tier=thorough kind=bounded bound="capacity=4 (storage length 4, free-stack length 0; all contents, links, versions symbolic under the invariant)" units=outstation::database::details::event::list::VecList::add timeout=250 note="add appends at the tail under a fresh handle, earlier elements keep order/handle/data; a full list refuses and is unchanged; invariant restored"
     list_harness!(vk_c03_list_add_c4_l4_f0, add_contract, 4, 4, 0);
-    // @harness ids=C03,C01 tier=thorough kind=bounded bound="capacity=4 (storage length 4, free-stack length 0; all contents, links, versions symbolic under the invariant)" units=outstation::database::details::event::list::VecList::remove_at timeout=200 note="for every handle value: removes exactly the addressed element iff the slot is live and the version matches, order of the others unchanged, else nothing changes; invariant restored"
+    // @harness ids=C03,C01 tier=thorough kind=bounded bound="capacity=4 (storage length 4, free-stack length 0; all contents, links, versions symbolic under the invariant)" units=outstation::database::details::event::list::VecList::remove_at timeout=250 note="for every handle value: removes exactly the addressed element iff the slot is live and the version matches, order of the others unchanged, else nothing changes; invariant restored"
     list_harness!(vk_c03_list_remove_at_c4_l4_f0, remove_at_contract, 4, 4, 0);
-    // @harness ids=C03,C01 tier=thorough kind=bounded bound="capacity=4 (storage length 4, free-stack length 0; all contents, links, versions symbolic under the invariant)" units=outstation::database::details::event::list::VecList::remove_first,outstation::database::details::event::list::VecList::find_first timeout=200 note="for every predicate (symbolic truth table): removes exactly the oldest matching element and returns its data, None and unchanged iff none matches; invariant restored"
+    // @harness ids=C03,C01 tier=thorough kind=bounded bound="capacity=4 (storage length 4, free-stack length 0; all contents, links, versions symbolic under the invariant)" units=outstation::database::details::event::list::VecList::remove_first,outstation::database::details::event::list::VecList::find_first timeout=250 note="for every predicate (symbolic truth table): removes exactly the oldest matching element and returns its data, None and unchanged iff none matches; invariant restored"
     list_harness!(vk_c03_list_remove_first_c4_l4_f0, remove_first_contract, 4, 4, 0);
-    // @harness ids=C03,C01 tier=thorough kind=bounded bound="capacity=4 (storage length 4, free-stack length 0; all contents, links, versions symbolic under the invariant)" units=outstation::database::details::event::list::VecList::remove_all timeout=200 note="for every predicate: asks it once per element oldest first, removes exactly the matching ones, survivors keep order/handle/data, returns the number removed; invariant restored"
-    list_harness!(vk_c03_list_remove_all_c4_l4_f0, remove_all_contract, 4, 4, 0);
-    // @harness ids=C03,C01 tier=thorough kind=bounded bound="capacity=4 (storage length 4, free-stack length 0; all contents, links, versions symbolic under the invariant)" units=outstation::database::details::event::list::VecList::iter,outstation::database::details::event::list::ListIterator::next,outstation::database::details::event::list::VecList::find_first,outstation::database::details::event::list::VecList::len,outstation::database::details::event::list::VecList::is_full timeout=200 note="iteration yields exactly the live elements oldest first with their handles; find_first returns the oldest match; nothing changes"
+    // @harness ids=C03,C01 tier=thorough kind=bounded bound="capacity=4 (storage length 4, free-stack length 0; all contents, links, versions symbolic under the invariant)" units=outstation::database::details::event::list::VecList::iter,outstation::database::details::event::list::ListIterator::next,outstation::database::details::event::list::VecList::find_first,outstation::database::details::event::list::VecList::len,outstation::database::details::event::list::VecList::is_full timeout=250 note="iteration yields exactly the live elements oldest first with their handles; find_first returns the oldest match; nothing changes"
     list_harness!(vk_c03_list_iter_c4_l4_f0, iter_contract, 4, 4, 0);
-    // @harness ids=C03,C01 tier=thorough kind=bounded bound="capacity=4 (storage length 4, free-stack length 1; all contents, links, versions symbolic under the invariant)" units=outstation::database::details::event::list::VecList::add timeout=200 note="add appends at the tail under a fresh handle, earlier elements keep order/handle/data; a full list refuses and is unchanged; invariant restored"
+    // @harness ids=C03,C01 tier=thorough kind=bounded bound="capacity=4 (storage length 4, free-stack length 1; all contents, links, versions symbolic under the invariant)" units=outstation::database::details::event::list::VecList::add timeout=250 note="add appends at the tail under a fresh handle, earlier elements keep order/handle/data; a full list refuses and is unchanged; invariant restored"
     list_harness!(vk_c03_list_add_c4_l4_f1, add_contract, 4, 4, 1);
-    // @harness ids=C03,C01 tier=thorough kind=bounded bound="capacity=4 (storage length 4, free-stack length 1; all contents, links, versions symbolic under the invariant)" units=outstation::database::details::event::list::VecList::remove_at timeout=200 note="for every handle value: removes exactly the addressed element iff the slot is live and the version matches, order of the others unchanged, else nothing changes; invariant restored"
+    // @harness ids=C03,C01 tier=thorough kind=bounded bound="capacity=4 (storage length 4, free-stack length 1; all contents, links, versions symbolic under the invariant)" units=outstation::database::details::event::list::VecList::remove_at timeout=250 note="for every handle value: removes exactly the addressed element iff the slot is live and the version matches, order of the others unchanged, else nothing changes; invariant restored"
     list_harness!(vk_c03_list_remove_at_c4_l4_f1, remove_at_contract, 4, 4, 1);
-    // @harness ids=C03,C01 tier=thorough kind=bounded bound="capacity=4 (storage length 4, free-stack length 1; all contents, links, versions symbolic under the invariant)" units=outstation::database::details::event::list::VecList::remove_first,outstation::database::details::event::list::VecList::find_first timeout=200 note="for every predicate (symbolic truth table): removes exactly the oldest matching element and returns its data, None and unchanged iff none matches; invariant restored"
+    // @harness ids=C03,C01 tier=thorough kind=bounded bound="capacity=4 (storage length 4, free-stack length 1; all contents, links, versions symbolic under the invariant)" units=outstation::database::details::event::list::VecList::remove_first,outstation::database::details::event::list::VecList::find_first timeout=250 note="for every predicate (symbolic truth table): removes exactly the oldest matching element and returns its data, None and unchanged iff none matches; invariant restored"
     list_harness!(vk_c03_list_remove_first_c4_l4_f1, remove_first_contract, 4, 4, 1);
-    // @harness ids=C03,C01 tier=thorough kind=bounded bound="capacity=4 (storage length 4, free-stack length 1; all contents, links, versions symbolic under the invariant)" units=outstation::database::details::event::list::VecList::remove_all timeout=200 note="for every predicate: asks it once per element oldest first, removes exactly the matching ones, survivors keep order/handle/data, returns the number removed; invariant restored"
-    list_harness!(vk_c03_list_remove_all_c4_l4_f1, remove_all_contract, 4, 4, 1);
-    // @harness ids=C03,C01 tier=thorough kind=bounded bound="capacity=4 (storage length 4, free-stack length 1; all contents, links, versions symbolic under the invariant)" units=outstation::database::details::event::list::VecList::iter,outstation::database::details::event::list::ListIterator::next,outstation::database::details::event::list::VecList::find_first,outstation::database::details::event::list::VecList::len,outstation::database::details::event::list::VecList::is_full timeout=200 note="iteration yields exactly the live elements oldest first with their handles; find_first returns the oldest match; nothing changes"
+    // @harness ids=C03,C01 tier=thorough kind=bounded bound="capacity=4 (storage length 4, free-stack length 1; all contents, links, versions symbolic under the invariant)" units=outstation::database::details::event::list::VecList::iter,outstation::database::details::event::list::ListIterator::next,outstation::database::details::event::list::VecList::find_first,outstation::database::details::event::list::VecList::len,outstation::database::details::event::list::VecList::is_full timeout=250 note="iteration yields exactly the live elements oldest first with their handles; find_first returns the oldest match; nothing changes"
     list_harness!(vk_c03_list_iter_c4_l4_f1, iter_contract, 4, 4, 1);
-    // @harness ids=C03,C01 tier=thorough kind=bounded bound="capacity=4 (storage length 4, free-stack length 2; all contents, links, versions symbolic under the invariant)" units=outstation::database::details::event::list::VecList::add timeout=200 note="add appends at the tail under a fresh handle, earlier elements keep order/handle/data; a full list refuses and is unchanged; invariant restored"
+    // @harness ids=C03,C01 tier=thorough kind=bounded bound="capacity=4 (storage length 4, free-stack length 2; all contents, links, versions symbolic under the invariant)" units=outstation::database::details::event::list::VecList::add timeout=250 note="add appends at the tail under a fresh handle, earlier elements keep order/handle/data; a full list refuses and is unchanged; invariant restored"
     list_harness!(vk_c03_list_add_c4_l4_f2, add_contract, 4, 4, 2);
-    // @harness ids=C03,C01 tier=thorough kind=bounded bound="capacity=4 (storage length 4, free-stack length 2; all contents, links, versions symbolic under the invariant)" units=outstation::database::details::event::list::VecList::remove_at timeout=200 note="for every handle value: removes exactly the addressed element iff the slot is live and the version matches, order of the others unchanged, else nothing changes; invariant restored"
+    // @harness ids=C03,C01 tier=thorough kind=bounded bound="capacity=4 (storage length 4, free-stack length 2; all contents, links, versions symbolic under the invariant)" units=outstation::database::details::event::list::VecList::remove_at timeout=250 note="for every handle value: removes exactly the addressed element iff the slot is live and the version matches, order of the others unchanged, else nothing changes; invariant restored"
     list_harness!(vk_c03_list_remove_at_c4_l4_f2, remove_at_contract, 4, 4, 2);
-    // @harness ids=C03,C01 tier=thorough kind=bounded bound="capacity=4 (storage length 4, free-stack length 2; all contents, links, versions symbolic under the invariant)" units=outstation::database::details::event::list::VecList::remove_first,outstation::database::details::event::list::VecList::find_first timeout=200 note="for every predicate (symbolic truth table): removes exactly the oldest matching element and returns its data, None and unchanged iff none matches; invariant restored"
+    // @harness ids=C03,C01 tier=thorough kind=bounded bound="capacity=4 (storage length 4, free-stack length 2; all contents, links, versions symbolic under the invariant)" units=outstation::database::details::event::list::VecList::remove_first,outstation::database::details::event::list::VecList::find_first timeout=250 note="for every predicate (symbolic truth table): removes exactly the oldest matching element and returns its data, None and unchanged iff none matches; invariant restored"
     list_harness!(vk_c03_list_remove_first_c4_l4_f2, remove_first_contract, 4, 4, 2);
-    // @harness ids=C03,C01 tier=thorough kind=bounded bound="capacity=4 (storage length 4, free-stack length 2; all contents, links, versions symbolic under the invariant)" units=outstation::database::details::event::list::VecList::remove_all timeout=200 note="for every predicate: asks it once per element oldest first, removes exactly the matching ones, survivors keep order/handle/data, returns the number removed; invariant restored"
-    list_harness!(vk_c03_list_remove_all_c4_l4_f2, remove_all_contract, 4, 4, 2);
-    // @harness ids=C03,C01 tier=thorough kind=bounded bound="capacity=4 (storage length 4, free-stack length 2; all contents, links, versions symbolic under the invariant)" units=outstation::database::details::event::list::VecList::iter,outstation::database::details::event::list::ListIterator::next,outstation::database::details::event::list::VecList::find_first,outstation::database::details::event::list::VecList::len,outstation::database::details::event::list::VecList::is_full timeout=200 note="iteration yields exactly the live elements oldest first with their handles; find_first returns the oldest match; nothing changes"
+    // @harness ids=C03,C01 tier=thorough kind=bounded bound="capacity=4 (storage length 4, free-stack length 2; all contents, links, versions symbolic under the invariant)" units=outstation::database::details::event::list::VecList::iter,outstation::database::details::event::list::ListIterator::next,outstation::database::details::event::list::VecList::find_first,outstation::database::details::event::list::VecList::len,outstation::database::details::event::list::VecList::is_full timeout=250 note="iteration yields exactly the live elements oldest first with their handles; find_first returns the oldest match; nothing changes"
     list_harness!(vk_c03_list_iter_c4_l4_f2, iter_contract, 4, 4, 2);
-    // @harness ids=C03,C01 tier=thorough kind=bounded bound="capacity=4 (storage length 4, free-stack length 3; all contents, links, versions symbolic under the invariant)" units=outstation::database::details::event::list::VecList::add timeout=200 note="add appends at the tail under a fresh handle, earlier elements keep order/handle/data; a full list refuses and is unchanged; invariant restored"
+    // @harness ids=C03,C01 tier=thorough kind=bounded bound="capacity=4 (storage length 4, free-stack length 3; all contents, links, versions symbolic under the invariant)" units=outstation::database::details::event::list::VecList::add timeout=250 note="add appends at the tail under a fresh handle, earlier elements keep order/handle/data; a full list refuses and is unchanged; invariant restored"
     list_harness!(vk_c03_list_add_c4_l4_f3, add_contract, 4, 4, 3);
-    // @harness ids=C03,C01 tier=thorough kind=bounded bound="capacity=4 (storage length 4, free-stack length 3; all contents, links, versions symbolic under the invariant)" units=outstation::database::details::event::list::VecList::remove_at timeout=200 note="for every handle value: removes exactly the addressed element iff the slot is live and the version matches, order of the others unchanged, else nothing changes; invariant restored"
+    // @harness ids=C03,C01 tier=thorough kind=bounded bound="capacity=4 (storage length 4, free-stack length 3; all contents, links, versions symbolic under the invariant)" units=outstation::database::details::event::list::VecList::remove_at timeout=250 note="for every handle value: removes exactly the addressed element iff the slot is live and the version matches, order of the others unchanged, else nothing changes; invariant restored"
     list_harness!(vk_c03_list_remove_at_c4_l4_f3, remove_at_contract, 4, 4, 3);
-    // @harness ids=C03,C01 tier=thorough kind=bounded bound="capacity=4 (storage length 4, free-stack length 3; all contents, links, versions symbolic under the invariant)" units=outstation::database::details::event::list::VecList::remove_first,outstation::database::details::event::list::VecList::find_first timeout=200 note="for every predicate (symbolic truth table): removes exactly the oldest matching element and returns its data, None and unchanged iff none matches; invariant restored"
+    // @harness ids=C03,C01 tier=thorough kind=bounded bound="capacity=4 (storage length 4, free-stack length 3; all contents, links, versions symbolic under the invariant)" units=outstation::database::details::event::list::VecList::remove_first,outstation::database::details::event::list::VecList::find_first timeout=250 note="for every predicate (symbolic truth table): removes exactly the oldest matching element and returns its data, None and unchanged iff none matches; invariant restored"
     list_harness!(vk_c03_list_remove_first_c4_l4_f3, remove_first_contract, 4, 4, 3);
-    // @harness ids=C03,C01 tier=thorough kind=bounded bound="capacity=4 (storage length 4, free-stack length 3; all contents, links, versions symbolic under the invariant)" units=outstation::database::details::event::list::VecList::remove_all timeout=200 note="for every predicate: asks it once per element oldest first, removes exactly the matching ones, survivors keep order/handle/data, returns the number removed; invariant restored"
-    list_harness!(vk_c03_list_remove_all_c4_l4_f3, remove_all_contract, 4, 4, 3);
-    // @harness ids=C03,C01 tier=thorough kind=bounded bound="capacity=4 (storage length 4, free-stack length 3; all contents, links, versions symbolic under the invariant)" units=outstation::database::details::event::list::VecList::iter,outstation::database::details::event::list::ListIterator::next,outstation::database::details::event::list::VecList::find_first,outstation::database::details::event::list::VecList::len,outstation::database::details::event::list::VecList::is_full timeout=200 note="iteration yields exactly the live elements oldest first with their handles; find_first returns the oldest match; nothing changes"
+    // @harness ids=C03,C01 tier=thorough kind=bounded bound="capacity=4 (storage length 4, free-stack length 3; all contents, links, versions symbolic under the invariant)" units=outstation::database::details::event::list::VecList::iter,outstation::database::details::event::list::ListIterator::next,outstation::database::details::event::list::VecList::find_first,outstation::database::details::event::list::VecList::len,outstation::database::details::event::list::VecList::is_full timeout=250 note="iteration yields exactly the live elements oldest first with their handles; find_first returns the oldest match; nothing changes"
     list_harness!(vk_c03_list_iter_c4_l4_f3, iter_contract, 4, 4, 3);
-    // @harness ids=C03,C01 tier=thorough kind=bounded bound="capacity=4 (storage length 4, free-stack length 4; all contents, links, versions symbolic under the invariant)" units=outstation::database::details::event::list::VecList::add timeout=200 note="add appends at the tail under a fresh handle, earlier elements keep order/handle/data; a full list refuses and is unchanged; invariant restored"
+    // @harness ids=C03,C01 tier=thorough kind=bounded bound="capacity=4 (storage length 4, free-stack length 4; all contents, links, versions symbolic under the invariant)" units=outstation::database::details::event::list::VecList::add timeout=250 note="add appends at the tail under a fresh handle, earlier elements keep order/handle/data; a full list refuses and is unchanged; invariant restored"
     list_harness!(vk_c03_list_add_c4_l4_f4, add_contract, 4, 4, 4);
-    // @harness ids=C03,C01 tier=thorough kind=bounded bound="capacity=4 (storage length 4, free-stack length 4; all contents, links, versions symbolic under the invariant)" units=outstation::database::details::event::list::VecList::remove_at timeout=200 note="for every handle value: removes exactly the addressed element iff the slot is live and the version matches, order of the others unchanged, else nothing changes; invariant restored"
+    // @harness ids=C03,C01 tier=thorough kind=bounded bound="capacity=4 (storage length 4, free-stack length 4; all contents, links, versions symbolic under the invariant)" units=outstation::database::details::event::list::VecList::remove_at timeout=250 note="for every handle value: removes exactly the addressed element iff the slot is live and the version matches, order of the others unchanged, else nothing changes; invariant restored"
     list_harness!(vk_c03_list_remove_at_c4_l4_f4, remove_at_contract, 4, 4, 4);
-    // @harness ids=C03,C01 tier=thorough kind=bounded bound="capacity=4 (storage length 4, free-stack length 4; all contents, links, versions symbolic under the invariant)" units=outstation::database::details::event::list::VecList::remove_first,outstation::database::details::event::list::VecList::find_first timeout=200 note="for every predicate (symbolic truth table): removes exactly the oldest matching element and returns its data, None and unchanged iff none matches; invariant restored"
+    // @harness ids=C03,C01 tier=thorough kind=bounded bound="capacity=4 (storage length 4, free-stack length 4; all contents, links, versions symbolic under the invariant)" units=outstation::database::details::event::list::VecList::remove_first,outstation::database::details::event::list::VecList::find_first timeout=250 note="for every predicate (symbolic truth table): removes exactly the oldest matching element and returns its data, None and unchanged iff none matches; invariant restored"
     list_harness!(vk_c03_list_remove_first_c4_l4_f4, remove_first_contract, 4, 4, 4);
-    // @harness ids=C03,C01 tier=thorough kind=bounded bound="capacity=4 (storage length 4, free-stack length 4; all contents, links, versions symbolic under the invariant)" units=outstation::database::details::event::list::VecList::remove_all timeout=200 note="for every predicate: asks it once per element oldest first, removes exactly the matching ones, survivors keep order/handle/data, returns the number removed; invariant restored"
-    list_harness!(vk_c03_list_remove_all_c4_l4_f4, remove_all_contract, 4, 4, 4);
-    // @harness ids=C03,C01 tier=thorough kind=bounded bound="capacity=4 (storage length 4, free-stack length 4; all contents, links, versions symbolic under the invariant)" units=outstation::database::details::event::list::VecList::iter,outstation::database::details::event::list::ListIterator::next,outstation::database::details::event::list::VecList::find_first,outstation::database::details::event::list::VecList::len,outstation::database::details::event::list::VecList::is_full timeout=200 note="iteration yields exactly the live elements oldest first with their handles; find_first returns the oldest match; nothing changes"
+    // @harness ids=C03,C01 tier=thorough kind=bounded bound="capacity=4 (storage length 4, free-stack length 4; all contents, links, versions symbolic under the invariant)" units=outstation::database::details::event::list::VecList::iter,outstation::database::details::event::list::ListIterator::next,outstation::database::details::event::list::VecList::find_first,outstation::database::details::event::list::VecList::len,outstation::database::details::event::list::VecList::is_full timeout=250 note="iteration yields exactly the live elements oldest first with their handles; find_first returns the oldest match; nothing changes"
     list_harness!(vk_c03_list_iter_c4_l4_f4, iter_contract, 4, 4, 4);
